@@ -12,1257 +12,2511 @@ Definition show_fres (r : fres) : string :=
   end.
 Definition check (rs : list rune) : string := digest (show_fres (format_res rs)).
 Definition full (rs : list rune) : string := show_fres (format_res rs).
-Eval vm_compute in ("<<<M2051>>>" ++ check (runes_of_ascii "  options
-
-    {lengthOf
-    = 
-""CRC32""
-;stringy= uint16
-
-    ;u8x
-= float32
-;
-x_y_z  
-  // c
-  =zchar[007 ]
-repeatCount	=""a\""b"";  
-      // c
-
-//	t
-	}
-
-MetaData trueish 
-{
-    As roots	`" ++ [28040; 24687; 31867; 22411]%N ++ runes_of_ascii "`
-    ,char[
-00	]
-
-    Packet 	 // c
-    	,
-
-} root packet roots
-
-    {
-	int8 Logon
-	,  body @lengthOf(	lengthOf  )
-
-`
-` ,
-@rightPad ('0'	) Packet @calculatedFrom(""x y"" 
-)`a\` ,@lengthOf(
-	T	)
-match	matchKey  as  _x 	 // trailing space 
-
-  { """ ++ [128512]%N ++ runes_of_ascii """
-
-    :	stringy, 
-4294967296  :
-	x_y_z
-
-    , ""\n""
-: leftPad[
-	42
-	,
-	42
-,
-
-    ""it's""
-	,""\n"" ,	""// no comment"" ]	:	asx
-	,
-
-}
-,
-
-char[
-	10 // trailing space 
-  ] BodyLength
-
-    ,
-	@leftPad
-( 
-'0'
-
-    )
-char[] 
-      /// triple
-  Z9_ `crlf
-line`
-	, string	falsey
-
-    ,
-	int16  // c
-	  asx
-@calculatedFrom( 
-""x y""  ),
-u128
-
-Z9_
-    `it's`  ,	@rightPad 
-    // " ++ [128512]%N ++ runes_of_ascii " emoji
-  // @lengthOf(
-(
-'0')	Packet{ 
-	// " ++ [128512]%N ++ runes_of_ascii " emoji
-	int64
-float , repeat leftPad {
-
-repeat
-    Z9_
-	{
-	match T	as
-lengthOf
-{ ""`tick`""	:
-
-msg_type	""1"" :
-x_y_z ,0: chars ,}
-, }
-,repeat
-
-trueish{zchar[
-    255 ]  crc
-    `doc`
-
-    , char
-	Logon @lengthOf(
-
-    _x 
-	    // " ++ [128512]%N ++ runes_of_ascii " emoji
-  )
-,
-    //
-
-a1
-
-`doc`,  
-  //x
-
-	//	t
-  },
-
-    match
-
-msg_type  as
-
-    zchar { ""it's""  // c
-    :
-	    /// triple
-  // packet A { u8 x, }
-  body
-,  """ ++ [28040; 24687]%N ++ runes_of_ascii """
-:  // `tick` ""quote"" 'q'
-    u
-    , } ,  }
-	,
-} ,  }  packet 	 // `tick` ""quote"" 'q'
-	As	// " ++ [27880; 37322]%N ++ runes_of_ascii "
-	{ @leftPad(
-// c
-'\x00'
-)
-
-@tag(  255
-	) @lengthOf( 	 // `tick` ""quote"" 'q'
-    o)
-
-zchar[
-42] string_ @calculatedFrom(
-
-    ""a\""b""  )	`" ++ [28040; 24687; 31867; 22411]%N ++ runes_of_ascii "`
-
-    ,
-	char[]
-
-    repeatCount//	t
-	@lengthOf( calculatedFrom
-    ) , metadata 
-@calculatedFrom(
-    ""abc""
-    )
-`two words` 
-, 
-	    // `tick` ""quote"" 'q'
-	// c
-  @lengthOf(
-
-    matchKey
-
-)  match
-	packetx
-	as 
-falsey {
-007 :
-A
-
-    ,
-""1"" :	packetx ,  //
-    7
-
-:  charz ,
-[ 65535	]
-:
-
-stringy	65535
-:	a1
-
-[""a	b"" ,
-
-    1
-] :Logon  
-      // a // b
-		// " ++ [128512]%N ++ runes_of_ascii " emoji
-  } 
-,
-
-    }
-
-")).
-Eval vm_compute in ("<<<M2000>>>" ++ check (runes_of_ascii "
-root packet
-x_y_z { match
-	Z9_
-as
-    u  {
-255 : pack
-    ,	255	:
-u128 
-,
-	007 :  float
-""\n"":	options1 
-,
-
-    [""" ++ [28040; 24687]%N ++ runes_of_ascii """  ,
-
-    1
-    ]
-    :
-	Z9_
-
-    """ ++ [28040; 24687]%N ++ runes_of_ascii """	:  chars  ,
-
-}
-, u8 
-_x
-	@calculatedFrom(  
-  // a // b
-  """ ++ [28040; 24687]%N ++ runes_of_ascii """  )	`say ""hi""`
-,
-@tag( 
-3  ) 
-match 
-a1
-
-    as
-
-msg_type
-{	[
-    ""\n"" // a // b
-    , 
-255 	 //x
-  ,0 ]
-
-: crc 
-,
-
-    } 
-,
-    }
-root
-
-    packet
-	o  {
-    match tag
-
-as 
-_x { 007
-    :
-	x
-
-    ,
-10:charz
-, ""{,}""
-
-    :	body
-	,""" ++ [233]%N ++ runes_of_ascii "t" ++ [233]%N ++ runes_of_ascii """ 
-:
-
-len """ ++ [128512]%N ++ runes_of_ascii """ :u	,
-	},
-u64  u@calculatedFrom(
-	""x y"" 
-
-    // c
-	// " ++ [27880; 37322]%N ++ runes_of_ascii "
-  )
-`it's`
-,@lengthOf( trueish
-)
-repeat 	 // packet A { u8 x, }
-  uint8
-u8x
-
-    `" ++ [28040; 24687; 31867; 22411]%N ++ runes_of_ascii "`// a // b
-  , @calculatedFrom(
-
-    ""\n"")
-
-    @rightPad ( )@leftPad (
-'\x00')
-	repeat  uint32 float ,
-	@lengthOf( A
-
-    ) @tag( //	t
-		0123456789 
-)@rightPad	(' '
-
-) zchar[ 10] 
-// " ++ [128512]%N ++ runes_of_ascii " emoji
-o	// packet A { u8 x, }
-
-  ,
-    uint8x
-
-    @calculatedFrom( ""a\\""  // " ++ [27880; 37322]%N ++ runes_of_ascii "
-  	) `
-`,
-    body  , repeat //	t
-
-	char[	10]	string_ `tab	here` ,
-
+Eval vm_compute in ("<<<M4374>>>" ++ check (runes_of_ascii "root packet stringy {
+    @tag(10)
+    string len ``,
+    float64 i64_,
+    @calculatedFrom(""abc"")
+    @leftPad('\x00')
+    repeat char[3] Header,
+    msg_type metadata `two words`,
+    leftPad body `crlf
+    line`,
+    string_,
+    stringy {
+        repeat metadata {
+            repeat lengthOf,
+        },// packet A { u8 x, }
+    },
+    @lengthOf(stringy)
+    u128 @calculatedFrom(""" ++ [28040; 24687]%N ++ runes_of_ascii """),
+    @calculatedFrom(""a	b"")
+    match crc as a1 {
+        42 : Header,
+        3 : tag,
+        [""CRC32"", ""packet""] : f32a,
+        // packet A { u8 x, }
+        [""" ++ [28040; 24687]%N ++ runes_of_ascii """, ""abc"", 65535, """ ++ [128512]%N ++ runes_of_ascii """, 10] : pack,
+    },
+    zchar[10] calculatedFrom @calculatedFrom(""\" ++ [233]%N ++ runes_of_ascii """) `
+    `,
 }
 
-root	packet
-
-roots
-	{}
-
-packet
-
-    u {@calculatedFrom(
-""" ++ [128512]%N ++ runes_of_ascii """ )
-    f64 Logon  // `tick` ""quote"" 'q'
-		@calculatedFrom(
-
-""1"" 
-) `a\`
-    , int16	trueish
-
-    `line1
-line2`
-
-    ,  //
-    	zchar[ 0123456789
-]
-    // a // b
-	BodyLength `two words`
-    ,
-    float32  i8i8
-@lengthOf(
-metadata
-
-)
-`// not a comment`
-    ,i32 leftPad
-	,} ")).
-Eval vm_compute in ("<<<M1547>>>" ++ check (runes_of_ascii "// top
-options // c0
-{
-    // c1
-LittleEndian // c2
-= // c3a
-  // c3b
-true
-    // c4
-; StringPrefixLenType // c6
-= // c7
-u16 // c8
-; // c9a
-  // c9b
-ArrayPrefixLenType
-    // c10
-= // c11
-u64
-    // c12
-; // c13
-} // c14
-packet Fill // c16a
-  // c16b
-{ // c17a
-  // c17b
-} packet // c19
-Logon // c20a
-  // c20b
-{ repeat
-    // c22
-char[ // c23
-3 // c24
-] // c25
-Tail // c26a
-  // c26b
-, // c27
-zchar[ // c28
-6 // c29
-] // c30
-venue , // c32
-repeat
-    // c33
-string // c34
-Side2 // c35a
-  // c35b
-,
-    // c36
-} root // c38a
-  // c38b
-packet
-    // c39
-Cancel
-    // c40
-{ char[] // c42a
-  // c42b
-Flags // c43a
-  // c43b
-, char[] OrderId
-    // c46
-, zchar[
-    // c48
-6
-    // c49
-] // c50
-msgKind // c51a
-  // c51b
-,
-    // c52
-Fill
-    // c53
-, char[] // c55
-Acct
-    // c56
-, // c57a
-  // c57b
-u8 // c58
-f1 // c59a
-  // c59b
-,
-    // c60
-match f1
-    // c62
-as // c63a
-  // c63b
-Body // c64a
-  // c64b
-{ 188
-    // c66
-:
-    // c67
-Fill , 5 : Logon // c72
-, // c73a
-  // c73b
-} , // c75
-u32 // c76
-clOrdID // c77a
-  // c77b
-@calculatedFrom( ""CRC32""
-    // c79
-)
-    // c80
-,
-    // c81
-} // c82
-")).
-Eval vm_compute in ("<<<M1568>>>" ++ check (runes_of_ascii "// top
-options // c0
-{
-    // c1
-FixedStringPadFromLeft = // c3
-true
-    // c4
-;
-    // c5
-FixedStringPadChar // c6a
-  // c6b
-= ' ' // c8a
-  // c8b
-; // c9a
-  // c9b
-} packet // c11a
-  // c11b
-Reject // c12a
-  // c12b
-{ // c13
-} packet Fill // c16a
-  // c16b
-{ repeat // c18a
-  // c18b
-i16 Tail ,
-    // c21
-} root // c23
-packet // c24a
-  // c24b
-Trade // c25
-{
-    // c26
-float64
-    // c27
-Ref // c28
-,
-    // c29
-Fill // c30a
-  // c30b
-, // c31a
-  // c31b
-u8 // c32a
-  // c32b
-Note // c33a
-  // c33b
-, u16 // c35
-count // c36a
-  // c36b
-@lengthOf( Body ) , // c40
-match // c41a
-  // c41b
-Note // c42a
-  // c42b
-as Body // c44
-{ // c45
-[ // c46
-98 // c47a
-  // c47b
-, // c48
-101 // c49
-] // c50a
-  // c50b
-:
-    // c51
-Fill
-    // c52
-, 34 // c54a
-  // c54b
-: // c55
-Reject // c56
-,
-    // c57
-} // c58
-, // c59
-u32 // c60a
-  // c60b
-x // c61
-@calculatedFrom( // c62a
-  // c62b
-""CRC32"" // c63a
-  // c63b
-)
-    // c64
-, // c65
-} // c66
-")).
-Eval vm_compute in ("<<<M220>>>" ++ check (runes_of_ascii "
-MetaData BodyLength
-{  int32 chars
-    `u8 x,` , char[
-0123456789 ] // c
-matchKey `a\` ,
-char[]
-    //
-    A , } packet//x
-u128
-    {}
-packet rootA
-{float64// c
-roots ,  @lengthOf(
-    float// `tick` ""quote"" 'q'
-)//	t
-repeat BodyLength { BodyLength{
-    repeat
-f64 Packet, char[ 7
-/// triple
-//	t
-] As `doc` ,
+root packet falsey {
+    @calculatedFrom(""" ++ [128512]%N ++ runes_of_ascii """)
+    @lengthOf(falsey)
+    int @calculatedFrom(""{,}""),
+    repeat matchKey f32a `{ , }`,
+    float64 crc `doc`,
+    @calculatedFrom(""" ++ [128512]%N ++ runes_of_ascii """)
+    matchKey @calculatedFrom("""") `u8 x,`,
+    A,// c
+    string Z9_ @lengthOf(x) `u8 x,`,
+    zchar @lengthOf(rootA) `// not a comment`,
+    options1 @lengthOf(packetx) `a\`,// " ++ [128512]%N ++ runes_of_ascii " emoji
+    @lengthOf(leftPad)
+    repeat u32 A,
 }
-    ,
-} , calculatedFrom
-{i16  o@lengthOf(
-    Logon ) `doc`, Foo u128 ,	char// @lengthOf(
-u @lengthOf(  _x
-) ,  },@tag( 1  )@rightPad // `tick` ""quote"" 'q'
-(' '
-) char[]msg_type
-// trailing space 
-// trailing space 
-, } packet
-calculatedFrom
-{
-    char[] rootA@calculatedFrom( ""a	b"" ) ,
-}	options
-//	t
-// packet A { u8 x, }
-{
-    o =
-""// no comment"" matchKey
-    = '\x00' ;
-    u
-    = """"
-leftPad = ""CRC32""; A= ""CRC32"" ; } // trailing space ")).
-Eval vm_compute in ("<<<M119>>>" ++ check (runes_of_ascii "packet
-Pad {
-@lengthOf(stringy)MetaDataX  @calculatedFrom(""" ++ [28040; 24687]%N ++ runes_of_ascii """ ) `{ , }` ,
-//x
-/// triple
-char[ 0123456789 ]leftPad @lengthOf( float
-), asx leftPad `u8 x,` ,
-    @calculatedFrom(""\" ++ [233]%N ++ runes_of_ascii """ )
-    repeat  rootA
-    matchKey `" ++ [28040; 24687; 31867; 22411]%N ++ runes_of_ascii "`, @lengthOf( stringy
-    ) /// triple
-uint8x msg_type `u8 x,`, // c
-char[ 3
-]
-stringy `tab	here`  ,
-}
-MetaData metadata{ string_ zchar , float32 u128	,
-char[]
-    //	t
-    u128//x
-,} options
+
+packet Pad {
+    @calculatedFrom(""a\\"")
     // trailing space 
-    { zchar =""" ++ [28040; 24687]%N ++ runes_of_ascii """ ;
-msg_type = 007 ;	repeatCount = '\x00' ;	} packet
-_x { }  options
-{
-    asx
-=
-true;
-lengthOf =
-'0'  i8i8= '0'  crc =
-""abc""
-    /// triple
-    ; Packet
-// " ++ [128512]%N ++ runes_of_ascii " emoji
-// trailing space 
-= ' ' } // a // b")).
-Eval vm_compute in ("<<<M279>>>" ++ check (runes_of_ascii "
-MetaData matchKey { i16
-lengthOf, int16
-    asx `it's`
-    ,
-    chars metadata `
-` , char[ 00 ] u128 ,// " ++ [128512]%N ++ runes_of_ascii " emoji
-zchar[ 007 ] falsey
-,  uint64 packetx
-, }
-    packet string_
-    {
-}root
-packet stringy{u64 packetx	@lengthOf( falsey // @lengthOf(
-) `crlf
-line` , falsey options1
-    , repeat char[] calculatedFrom , @rightPad ( '\x00' )
-i64 // c
-charz
-    @lengthOf(
-    x_y_z )
-    `u8 x,`,
-// @lengthOf(
-//x
-@lengthOf( rootA )char[] BodyLength `it's`
-, msg_type@calculatedFrom( // trailing space 
-""packet"") ,
-    // " ++ [27880; 37322]%N ++ runes_of_ascii "
-    lengthOf {zchar[
-65535	]tag
-`
-`
-    , }
-    , } 	 ")).
-Eval vm_compute in ("<<<M1559>>>" ++ check (runes_of_ascii "options {
-
-    LittleEndian= false
-
-;ArrayPrefixLenType=
-	u8 ;  FixedStringPadChar
-    =  '0' ;	}	packet
-Order
-	{
-	InNote94{
-	f32 f1 ,
-	f64
-Side2 ,
-
-    repeat InTail47	{
-char[]
-
-seqNo ,
-
-    char[]
-Tail 
-,	char[]	lastPx,},
-
-    }, 
-zchar[ 7 
-] f1
-
-    ,u8
-
-Side2
-	,}
-root
-packet
-	Reject {repeat
-
-    char[
-    4
-    ]Flags
-
-,
-	InPrice63
-{
-
-    InSeqno41
-
-    {
-
-    repeat
-
-i8 OrderId  ,repeat
-i32
-    clOrdID
-, char[ 
-9  ]
-tag7,char[]
-lastPx,
-}
-    ,
-	Order,uint8
-Side2 , 
-} ,
-}
-")).
-Eval vm_compute in ("<<<M1549>>>" ++ check (runes_of_ascii "options {
-    LittleEndian = true;
-    StringPrefixLenType = u16;
-    ArrayPrefixLenType = u64;
-}
-packet Fill {
-}
-packet Logon {
-    repeat char[3] Tail,
-    zchar[6] venue,
-    repeat string Side2,
-}
-root packet Cancel {
-    char[] Flags,
-    char[] OrderId,
-    zchar[6] msgKind,
-    Fill,
-    char[] Acct,
-    u8 f1,
-    match f1 as Body {
-        188 : Fill,
-        5 : Logon,
+    @tag(65535)
+    @lengthOf(u128)
+    f64 x `u8 x,`,
+    @lengthOf(x_y_z)
+    string stringy @lengthOf(string_),
+    metadata {
+        match body as rootA {
+            0 : o,
+            255 : uint8x,
+            [10] : crc,
+            007 : msg_type,
+        },
     },
-    u32 clOrdID @calculatedFrom(""CR\
-C32""),
-}
-")).
-Eval vm_compute in ("<<<M1999>>>" ++ check (runes_of_ascii "packet i8i8 {
-    matchKey,
-    match trueish as roots {
-        [00] : int,
-        255 : u128,
-        3 : matchKey,
-        [65535] : trueish,
-        //	t
+    msg_type @lengthOf(msg_type),
+    @leftPad('0')
+    lengthOf @lengthOf(As) `// not a comment`,/// triple
+    repeat zchar[1] rootA `// not a comment`,
+    @tag(10)
+    @leftPad()
+    @lengthOf(stringy)
+    repeat body {
+        // a // b
+        i8i8 @calculatedFrom(""a	b""),
+        // " ++ [128512]%N ++ runes_of_ascii " emoji
+        _x,
+        repeat u8 Packet,
     },
+    i32 Logon,
 }
 
-packet packetx {
+packet calculatedFrom {
+    float32 rootA `say ""hi""`,
 }
 
-packet u8x {
+root packet packetx {
     @tag(3)
-    match x_y_z as leftPad {
-        [7] : u8x,
+    asx,
+    len {
+        tag {
+            repeat zchar[0123456789] stringy ``,
+        },
+        Z9_ `
+        `,
+        Foo,
+        repeat u8x `// not a comment`,
     },
-    @tag(42)
-    int64 lengthOf,
-    @tag(255)
-    zchar[7] o,
-    A,
-    @tag(0)
-    repeat lengthOf u8x,
+    int64 body @calculatedFrom(""a\\"") `it's`,
 }")).
-Eval vm_compute in ("<<<M44>>>" ++ check (runes_of_ascii "packet rootA { @rightPad( ' ') repeat
-    Z9_ roots
-``,	zchar
-tag `two words` , @rightPad ( ' '
-    )
-len {
-// trailing space 
-//x
-u128
-`doc` ,u8x
-    ,  char[ 0123456789 // a // b
-]calculatedFrom  `" ++ [28040; 24687; 31867; 22411]%N ++ runes_of_ascii "`,msg_type
-@lengthOf(
-falsey)`u8 x,` , } ,
-@calculatedFrom( """"	)	f64 charz
-@lengthOf(msg_type) `it's`// trailing space 
-,
-    }
-")).
-Eval vm_compute in ("<<<M2036>>>" ++ check (runes_of_ascii "options {roots
-
-    =//x
-
-  int64
-
-}
-
-    // @lengthOf(
+Eval vm_compute in ("<<<M1397>>>" ++ check (runes_of_ascii "options { options1
+= 007 ;
+}  packet u { // @lengthOf(
+@tag( 0 ) // trailing space 
+tag  { int64 _x
+    ,
+u64 MetaDataX @calculatedFrom(""1"")
+    , } , char charz
+, rootA `
+`
+// `tick` ""quote"" 'q'
 // @lengthOf(
-    packet int
-    {
-
-    char	zchar 
-,repeat len { f32a`" ++ [28040; 24687; 31867; 22411]%N ++ runes_of_ascii "`,
-},	zchar[  007 
-]
-	As
-`it's`,	zchar[
-
-007
-
-    // a // b
-  ]
-    uint8x @lengthOf(
-	    //x
-	Foo)
-
-, 
-  // packet A { u8 x, }
-	// packet A { u8 x, }
-  } ")).
-Eval vm_compute in ("<<<M484>>>" ++ check (runes_of_ascii "root packet packet tag { }  packet MetaDataX{char[007	]
+,match
+string_ as//x
+charz{ 007
+:  x , }  ,repeat
+uint8x {
+x_y_z {
 // c
-/// triple
-asx  @calculatedFrom( ""a\""b""
-) `say ""hi""`// " ++ [27880; 37322]%N ++ runes_of_ascii "
-,  @tag(4294967296 )
-    char[1//x
-] packetx @calculatedFrom(""a\""b""
-    ) ,
-// " ++ [128512]%N ++ runes_of_ascii " emoji
-// a // b
-@calculatedFrom(""" ++ [233]%N ++ runes_of_ascii "t" ++ [233]%N ++ runes_of_ascii """  ) repeat pack // " ++ [27880; 37322]%N ++ runes_of_ascii "
-,
-    } // c")).
-Eval vm_compute in ("<<<M631>>>" ++ check (runes_of_ascii "root packet tag { }  packet MetaDataX{char[007	]
 // c
-/// triple
-asx  @calculatedFrom( ""a\""b""
-) `say ""hi""`// " ++ [27880; 37322]%N ++ runes_of_ascii "
-,  @tag(4294967296 )
-    char[1//x
-] packetx @calculatedFrom(""a\""b""
-    ) ,
-// " ++ [128512]%N ++ runes_of_ascii " emoji
-// a // b
-@calculatedFrom(""" ++ [233]%N ++ runes_of_ascii "t" ++ [233]%N ++ runes_of_ascii """  char repeat pack // " ++ [27880; 37322]%N ++ runes_of_ascii "
+repeat char[] pack
+, char[] x_y_z ,}
 ,
-    } // c")).
-Eval vm_compute in ("<<<M581>>>" ++ check (runes_of_ascii "root packet tag { }  packet MetaDataX{char[007	]
-// c
-/// triple
-asx  @calculatedFrom( ""a\""b""
-) `say ""hi""`// " ++ [27880; 37322]%N ++ runes_of_ascii "
-,  @tag(4294967296 )
-    zchar[1//x
-] packetx @calculatedFrom(""a\""b""
-    ) ,
-// " ++ [128512]%N ++ runes_of_ascii " emoji
-// a // b
-@calculatedFrom(""" ++ [233]%N ++ runes_of_ascii "t" ++ [233]%N ++ runes_of_ascii """  ) repeat pack // " ++ [27880; 37322]%N ++ runes_of_ascii "
-,
-    } // c")).
-Eval vm_compute in ("<<<M575>>>" ++ check (runes_of_ascii "root packet tag { }  packet MetaDataX{char[007	]
-// c
-/// triple
-asx  @calculatedFrom( ""a\""b""
-) `say ""hi""`// " ++ [27880; 37322]%N ++ runes_of_ascii "
-,  @tag(4294967296 char[
-    )1//x
-] packetx @calculatedFrom(""a\""b""
-    ) ,
-// " ++ [128512]%N ++ runes_of_ascii " emoji
-// a // b
-@calculatedFrom(""" ++ [233]%N ++ runes_of_ascii "t" ++ [233]%N ++ runes_of_ascii """  ) repeat pack // " ++ [27880; 37322]%N ++ runes_of_ascii "
-,
-    } // c")).
-Eval vm_compute in ("<<<M596>>>" ++ check (runes_of_ascii "root packet tag { }  packet MetaDataX{char[007	]
-// c
-/// triple
-asx  @calculatedFrom( ""a\""b""
-) `say ""hi""`// " ++ [27880; 37322]%N ++ runes_of_ascii "
-,  @tag(4294967296 )
-    char[1//x
-] match @calculatedFrom(""a\""b""
-    ) ,
-// " ++ [128512]%N ++ runes_of_ascii " emoji
-// a // b
-@calculatedFrom(""" ++ [233]%N ++ runes_of_ascii "t" ++ [233]%N ++ runes_of_ascii """  ) repeat pack // " ++ [27880; 37322]%N ++ runes_of_ascii "
-,
-    } // c")).
-Eval vm_compute in ("<<<M593>>>" ++ check (runes_of_ascii "root packet tag { }  packet MetaDataX{char[007	]
-// c
-/// triple
-asx  @calculatedFrom( ""a\""b""
-) `say ""hi""`// " ++ [27880; 37322]%N ++ runes_of_ascii "
-,  @tag(4294967296 )
-    char[1//x
-]  @calculatedFrom(""a\""b""
-    ) ,
-// " ++ [128512]%N ++ runes_of_ascii " emoji
-// a // b
-@calculatedFrom(""" ++ [233]%N ++ runes_of_ascii "t" ++ [233]%N ++ runes_of_ascii """  ) repeat pack // " ++ [27880; 37322]%N ++ runes_of_ascii "
-,
-    } // c")).
-Eval vm_compute in ("<<<M637>>>" ++ check (runes_of_ascii "root packet tag { }  packet MetaDataX{char[007	]
-// c
-/// triple
-asx  @calculatedFrom( ""a\""b""
-) `say ""hi""`// " ++ [27880; 37322]%N ++ runes_of_ascii "
-,  @tag(4294967296 )
-    char[1//x
-] packetx @calculatedFrom(""a\""b""
-    ) ,
-// " ++ [128512]%N ++ runes_of_ascii " emoji
-// a // b
-@calculatedFrom(""" ++ [233]%N ++ runes_of_ascii "t" ++ [233]%N ++ runes_of_ascii """  )")).
-Eval vm_compute in ("<<<M1335>>>" ++ check (runes_of_ascii "// top
-packet // c0
-o // c1
-{ // c2
-repeat // c3
-Logon // c4
-uint8x // c5
-, // c6
-} // c7
-options // c8
-{ // c9
-asx // c10
-= // c11
-zchar[ // c12
-3 // c13
-] // c14
-stringy // c15
-= // c16
-'\x00' // c17
-} // c18
-")).
-Eval vm_compute in ("<<<M1501>>>" ++ check (runes_of_ascii "// top
-packet // c0
-orderItem // c1a
-  // c1b
-{ u8 // c3
-a // c4
-, } // c6
-root
-    // c7
-packet // c8a
-  // c8b
-newOrder // c9
-{
-    // c10
-orderItem , // c12a
-  // c12b
-u8
-    // c13
-x , } ")).
-Eval vm_compute in ("<<<M1868>>>" ++ check (runes_of_ascii "options
-    { LittleEndian
-
-= true;
-
-} 
-packet B
-{
-
-    u8
-	a
-,
-    string
-
-    s
+} , match //	t
+u128
+as string_ { ""a\\"" : u128
+,} ,
+@lengthOf(
+A ) u8 chars
+`100% of %d`, }root  packet x {repeat // trailing space 
+uint8x {// packet A { u8 x, }
+match
+    trueish as
+    roots { ""abc""  : options1 ""a\\"": roots
+, 00:
+Pad
+, ""a	b"": Pad , [
+    ""packet"" ]
+:// packet A { u8 x, }
+_x
+    ,
+    10 : len , }
 , }
-    root
+, // c
+zchar[
+0123456789 ] zchar
+@lengthOf(T
+    )`a\`
+, @rightPad () @lengthOf( roots ) msg_type , @tag( 3
+)Packet @lengthOf(
+rootA
+    /// triple
+    )
+    ,	i8i8	`a\` ,@lengthOf(
+    rootA
+    ) @calculatedFrom( ""x y"" )zchar
+{ repeat
+msg_type BodyLength ,int32	packetx`" ++ [233]%N ++ runes_of_ascii "`, u16 Foo
+    // `tick` ""quote"" 'q'
+    `// not a comment` // " ++ [128512]%N ++ runes_of_ascii " emoji
+,char uint8x@lengthOf( body
+)
+,
+}
+, } packet asx
+    // trailing space 
+    {
+@lengthOf(
+// " ++ [27880; 37322]%N ++ runes_of_ascii "
+// packet A { u8 x, }
+msg_type) char
+    u128 , i16	len `tab	here` , // `tick` ""quote"" 'q'
+@lengthOf(roots ) match asx as BodyLength	{""packet"" : trueish,""" ++ [128512]%N ++ runes_of_ascii """ :
+x , 3
+: charz 0123456789 :
+Packet
+,  007: pack , [
+00 ,
+    ""a\""b""] :
+lengthOf , },
+    @lengthOf( BodyLength ) char[
+// 50% %s
+//x
+0 ]u8x
+@lengthOf(msg_type  ) , @calculatedFrom( ""it's"" ) options1 @calculatedFrom( ""`tick`"" ) `u8 x,`
+,char[ 3 ] repeatCount// `tick` ""quote"" 'q'
+`" ++ [28040; 24687; 31867; 22411]%N ++ runes_of_ascii "`
+, A@lengthOf( a1 // " ++ [128512]%N ++ runes_of_ascii " emoji
+) ,
+@calculatedFrom(
+""a	b"" ) @lengthOf(
+int)leftPad @lengthOf( Z9_ ), @lengthOf( f32a )
+roots {
+    //	t
+    repeat As , } ,@lengthOf(
+    pack ) uint8 charz
+//x
+// `tick` ""quote"" 'q'
+, } packet repeatCount{ }
+")).
+Eval vm_compute in ("<<<M3638>>>" ++ check (runes_of_ascii "root 
+    // " ++ [27880; 37322]%N ++ runes_of_ascii "
 
 packet
-
-    P	{ 
-u16
-
-    L
-
-    @lengthOf(
-    B 
-)
-, B,
-u8  t ,
-	} ")).
-Eval vm_compute in ("<<<M216>>>" ++ check (runes_of_ascii "MetaData msg_type { }root
-    packet T{@rightPad (
-    )
-    repeat char[ 3 ]	x_y_z ,
-    @lengthOf(
-roots  ) string	i64_ @lengthOf(
-u8x // a // b
-) `// not a comment`	,}")).
-Eval vm_compute in ("<<<M704>>>" ++ check (runes_of_ascii "root packet len // trailing space 
-{
-// " ++ [27880; 37322]%N ++ runes_of_ascii "
-//	t
-char[10
-] metadata	@lengt%hOf( o ) `crlf
-line`,
-    @rightPad
-( ' '
-) string
-    Header @calculatedFrom( ""a\\""
-    ), }
-")).
-Eval vm_compute in ("<<<M720>>>" ++ check (runes_of_ascii "root packet len // trailing space 
-{
-// " ++ [27880; 37322]%N ++ runes_of_ascii "
-//	t
-char[10
-] metadata	@lengthOf( o ) `crlf
-line`,
-    @rightPad
-( ' '
-) string
-    Header @calculatedFrom( ""a\\""
-    )} ,
-")).
-Eval vm_compute in ("<<<M1805>>>" ++ check (runes_of_ascii "packet asx {
-}
-
-// packet A { u8 x, }
-options {
-    options1 = float64
-    leftPad = true;
-    MetaDataX = char[00];
-    roots = false
-}// " ++ [128512]%N ++ runes_of_ascii " emoji
-
-packet string_ {
-}")).
-Eval vm_compute in ("<<<M602>>>" ++ check (runes_of_ascii "root packet tag { }  packet MetaDataX{char[007	]
-// c
-/// triple
-asx  @calculatedFrom( ""a\""b""
-) `say ""hi""`// " ++ [27880; 37322]%N ++ runes_of_ascii "
-,  @tag(4294967296 )
-    char[1//x
-] packetx")).
-Eval vm_compute in ("<<<M2028>>>" ++ check (runes_of_ascii "
-root packet
-matchKey{  zchar[ 3
-
-]
-
-    pack@calculatedFrom(
-    ""a	b""
-)
-
-`doc`// c
-  ,  }options {
-	} MetaData A  {
-
-int8
-
-msg_type
-	,
-
-    } ")).
-Eval vm_compute in ("<<<M443>>>" ++ check (runes_of_ascii "packet
-    // `tick` ""quote"" 'q'
-    crc
-// packet A { u8 x, }
-//	t
-{
-u32 a1 ,
-    // trailing space 
-    roots
-charz //
-`two words`,	}")).
-Eval vm_compute in ("<<<M1724>>>" ++ check (runes_of_ascii "root packet matchKey {
-    zchar[3] pack @calculatedFrom(""a	b"") `doc`,
-}
-
-options {
-}
-
-MetaData A {
-    int8 msg_type,
-    // c
-}")).
-Eval vm_compute in ("<<<M1223>>>" ++ check (runes_of_ascii "root // c
-packet matchKey { zchar[ 3 ] pack @calculatedFrom( ""a	b"" ) `doc` , } options { } MetaData A { int8 msg_type , }")).
-Eval vm_compute in ("<<<M1255>>>" ++ check (runes_of_ascii "root packet matchKey { zchar[ 3 ] pack @calculatedFrom( ""a	b"" ) `doc` , } options { } // c
-MetaData A { int8 msg_type , }")).
-Eval vm_compute in ("<<<M901>>>" ++ check (runes_of_ascii "packet A {
-  match k as n {
-    [""a"", ""bb"", ""c c"", ""d"", ""e"", ""f"", ""g"", ""h"", ""i"", ""j"", ""k"", ""l""] : B,
-    2 : C
-  },
-}")).
-Eval vm_compute in ("<<<M909>>>" ++ check (runes_of_ascii "packet A {
-  match k as n {
-    [""a"", ""bb"", 007, ""d"", ""e"", 66, ""g"", ""h"", 9, ""j"", ""k"", 12] : B,
-    2 : C
-  },
-}")).
-Eval vm_compute in ("<<<M562>>>" ++ check (runes_of_ascii "root packet tag { }  packet MetaDataX{char[007	]
-// c
-/// triple
-asx  @calculatedFrom( ""a\""b""
-) `say ""hi""`")).
-Eval vm_compute in ("<<<M1948>>>" ++ check (runes_of_ascii "
-packet 
-chars{ }
-	packet
-
-MetaDataX {@tag(42)i16
 
 string_
+	{ repeat
 
-, 
-// c
-  repeat	x	`say ""hi""`
+    uint16
+    Logon
+	`
+` ,
+	@calculatedFrom(
+""" ++ [233]%N ++ runes_of_ascii "t" ++ [233]%N ++ runes_of_ascii """ ) char[
+255
+]
+    Logon ,
+    u64 pack
+
+@calculatedFrom(
+
+    ""a\\"" )
+
+, @rightPad	// 50% %s
+  ( 	 // `tick` ""quote"" 'q'
+  	'0' 
+)  T  {zchar[3
+    ]u8x@calculatedFrom(""CRC32"")
+
+`crlf
+line` 
+, o{ _x
+{float32
+	calculatedFrom /// triple
+  ,
+},  repeat int64  u128, float32 string_
+    @lengthOf(  msg_type
+)
+
+`" ++ [233]%N ++ runes_of_ascii "`
+	,	} ,} 
+,
+
+i16
+charz `line1
+line2`
+    ,
+    repeat	int64
+
+    a1,  @lengthOf(	// 50% %s
+    lengthOf ) 
+
+// " ++ [27880; 37322]%N ++ runes_of_ascii "
+@tag( 
+00
+	)
+Header
+    body `" ++ [28040; 24687; 31867; 22411]%N ++ runes_of_ascii "` ,  @tag( // a // b
+    65535 
+) 
+match pack 
+as
+_x { ""abc""
+    :charz
 
 ,
 
+    255  // c
+	:
+    T
+
+,
+
+    [
+
+""1""
+	, 007
+]: rootA
+
+,00:  i64_
+	}
+
+    ,  char[]  a1 `" ++ [233]%N ++ runes_of_ascii "`
+	,matchKey {zchar[
+3  ]
+Pad 	 //
+	`// not a comment` ,}
+	, }	options{	packetx =
+    ' 'A
+	= 
+0123456789
+;
+string_ =
+	'\x00' ;
+	float  =
+
+    ""a\""b""  ; tag=  65535 
+} 
+root	packet matchKey
+    {
+    @calculatedFrom(	""\n""  /// triple
+) zchar	crc
+`100% of %d`,repeat
+x
+{ 
+char[] 
+options1	`two words`
+
+    , repeat 
+        // packet A { u8 x, }
+metadata {	options1
+    @calculatedFrom(""CRC32"" 
+) , 
+},
+uint64
+	matchKey 
+`" ++ [28040; 24687; 31867; 22411]%N ++ runes_of_ascii "`
+
+,  leftPad, }
+	,
+
+repeat
+
+i64
+
+_x `{ , }`
+	,
+
+    @tag(  1
+    )char[
+
+    255
+    ]
+
+len
+
+    , 
+}
+
+    root 
+packet
+charz{  float64
+body
+@lengthOf( falsey	)
+,
+
+    zchar repeatCount ,}
+    root
+    packet asx  {  
+  //x
+
+// 50% %s
+	  }
+")).
+Eval vm_compute in ("<<<M1408>>>" ++ check (runes_of_ascii "options {
+    StringPrefixLenType = u16;
+    ArrayPrefixLenType = u16;
+}
+
+packet SampleBinary {
+    uint16 MsgType `" ++ [28040; 24687; 31867; 22411]%N ++ runes_of_ascii "`,
+    u16 BodyLenght @lengthOf(Body) `" ++ [28040; 24687; 20307; 38271; 24230]%N ++ runes_of_ascii "`,
+    match MsgType as Body {
+        1 : Logon,
+        2 : Logout,
+        3 : Heartbeat,
+        4 : RiskControlRequest,
+        5 : RiskControlResponse,
+    },
+    @calculatedFrom(""CRC32"")
+    u32 Ckecksum `" ++ [26657; 39564; 21644]%N ++ runes_of_ascii "`,
+}
+
+packet Logon {
+    @leftPad('0')
+    char[10] UserName `" ++ [29992; 25143; 21517]%N ++ runes_of_ascii "`,
+    string Password `" ++ [23494; 30721]%N ++ runes_of_ascii "`,
+    uint64 ClientId `" ++ [23458; 25143; 31471]%N ++ runes_of_ascii "ID`,
+    u16 HeartbeatInterval `" ++ [24515; 36339; 38388; 38548]%N ++ runes_of_ascii "`,
+}
+
+packet Logout {
+    @rightPad('0')
+    char[10] UserName `" ++ [29992; 25143; 21517]%N ++ runes_of_ascii "`,
+    uint64 ClientId `" ++ [23458; 25143; 31471]%N ++ runes_of_ascii "ID`,
+}
+
+packet Heartbeat {
+}
+
+packet RiskControlRequest {
+    string UniqueOrderId `" ++ [21807; 19968; 35746; 21333; 21495]%N ++ runes_of_ascii "`,
+    char[16] ClOrdID `" ++ [23458; 25143; 35746; 21333; 21495]%N ++ runes_of_ascii "`,
+    char[3] MarketID `" ++ [24066; 22330]%N ++ runes_of_ascii "id`,
+    char[12] SecurityID `" ++ [35777; 21048; 20195; 30721]%N ++ runes_of_ascii "`,
+    char Side `" ++ [20080; 21334; 26041; 21521]%N ++ runes_of_ascii "`,
+    char OrderType `" ++ [35746; 21333; 31867; 22411]%N ++ runes_of_ascii "`,
+    u64 Price `" ++ [20215; 26684]%N ++ runes_of_ascii "`,
+    u32 Qty `" ++ [25968; 37327]%N ++ runes_of_ascii "`,
+    repeat string ExtraInfo `" ++ [38468; 21152; 20449; 24687]%N ++ runes_of_ascii "`,
+    repeat SubOrder {
+        char[16] ClOrdID `" ++ [23376; 35746; 21333; 21495]%N ++ runes_of_ascii "`,
+        u64 Price `" ++ [23376; 35746; 21333; 20215; 26684]%N ++ runes_of_ascii "`,
+        u32 Qty `" ++ [23376; 35746; 21333; 25968; 37327]%N ++ runes_of_ascii "`,
+    },
+}
+
+packet RiskControlResponse {
+    string UniqueOrderId `" ++ [21807; 19968; 35746; 21333; 21495]%N ++ runes_of_ascii "`,
+    i32 Status `" ++ [29366; 24577]%N ++ runes_of_ascii "`,
+    string Msg `" ++ [32467; 26524; 20449; 24687]%N ++ runes_of_ascii "`,
+    repeat Detail,
+}
+
+packet Detail {
+    string RuleName `" ++ [35268; 21017; 21517; 31216]%N ++ runes_of_ascii "`,
+    u16 Code `" ++ [21407; 22240; 20195; 30721]%N ++ runes_of_ascii "`,
+}")).
+Eval vm_compute in ("<<<M3738>>>" ++ check (runes_of_ascii "root packet x {
+    @calculatedFrom(""" ++ [233]%N ++ runes_of_ascii "t" ++ [233]%N ++ runes_of_ascii """)
+    // `tick` ""quote"" 'q'
+    // 50% %s
+    Header tag `
+        `,
+    pack BodyLength `" ++ [233]%N ++ runes_of_ascii "`,/// triple
+    @tag(7)
+    Packet,
+}
+
+packet BodyLength {
+    BodyLength,
+}
+
+packet float {
+    match packetx as u {
+        [
+            10, """ ++ [128512]%N ++ runes_of_ascii """, 255, ""// no comment"", 42,
+            00, ""{,}"", """ ++ [28040; 24687]%N ++ runes_of_ascii """
+        ] : Packet,
+    },
+    @rightPad('0')
+    repeat uint16 chars,
+    @calculatedFrom(""" ++ [233]%N ++ runes_of_ascii "t" ++ [233]%N ++ runes_of_ascii """)
+    string leftPad,
+    match len as stringy {
+        3 : pack,
+    },
+    repeat u8 Foo,
+    roots @lengthOf(len) `it's`,
+    // a // b
+    // trailing space 
+    @lengthOf(u128)
+    char[255] string_,
+    zchar[0123456789] stringy,
+    @tag(10)
+    match metadata as A {
+        0123456789 : lengthOf,
+        10 : o,
+        // packet A { u8 x, }
+        // 50% %s
+        [
+            ""a	b"", 00, 3, 007, ""a\""b"",
+            10
+        ] : chars,
+        42 : u,
+        """ ++ [28040; 24687]%N ++ runes_of_ascii """ : f32a,
+        7 : u8x,
+    },
+}
+
+root packet u {
+    repeat o {
+        repeat crc {
+            int8 i8i8 @calculatedFrom(""x y"") `tab	here`,
+            repeat falsey {
+                uint32 crc @lengthOf(MetaDataX) `100% of %d`,
+            },
+        },
+    },
+}")).
+Eval vm_compute in ("<<<M3442>>>" ++ check (runes_of_ascii "packet Frame // c1
+{ // c2a
+  // c2b
+u8 // c3
+HK
+    // c4
+, u8 // c6
+BK
+    // c7
+, // c8
+u8 // c9
+TK // c10
+, // c11
+match
+    // c12
+HK
+    // c13
+as // c14a
+  // c14b
+Hdr
+    // c15
+{ 1 : // c18a
+  // c18b
+HdrA ,
+    // c20
+2 : // c22a
+  // c22b
+HdrB
+    // c23
+, // c24a
+  // c24b
+} // c25a
+  // c25b
+, match BK // c28a
+  // c28b
+as // c29
+Body // c30
+{ // c31
+1 : BodyA // c34
+, // c35a
+  // c35b
+2 : // c37a
+  // c37b
+BodyB // c38
+, // c39a
+  // c39b
+}
+    // c40
+, match TK // c43
+as // c44a
+  // c44b
+Trl
+    // c45
+{ 1 // c47
+: TrlA // c49
+, // c50
+} // c51
+, // c52a
+  // c52b
+} packet // c54a
+  // c54b
+HdrA { u8
+    // c57
+a // c58a
+  // c58b
+, // c59
+} // c60
+packet // c61
+HdrB
+    // c62
+{
+    // c63
+u16 // c64
+b // c65a
+  // c65b
+, // c66
+} // c67
+packet BodyA
+    // c69
+{ u32
+    // c71
+c // c72
+, // c73
+} packet // c75a
+  // c75b
+BodyB // c76
+{ // c77
+u64
+    // c78
+d
+    // c79
+, // c80
+} packet TrlA { // c84
+u8
+    // c85
+e , // c87a
+  // c87b
+} root // c89a
+  // c89b
+packet
+    // c90
+Msg // c91a
+  // c91b
+{ Frame // c93a
+  // c93b
+, // c94a
+  // c94b
+u8
+    // c95
+x // c96
+, // c97
+} ")).
+Eval vm_compute in ("<<<M4435>>>" ++ check (runes_of_ascii "root packet Z9_ {
+    char[] falsey `a\`,
+    repeat char[] x_y_z `" ++ [233]%N ++ runes_of_ascii "`,
+    rootA @calculatedFrom(""a\""b""),
+    f32a,
+    char[] packetx @lengthOf(msg_type),
+}
+
+packet MetaDataX {
+    i16 pack @lengthOf(Z9_),
+    @calculatedFrom(""\n"")
+    @lengthOf(a1)
+    f32a @calculatedFrom(""1""),
+    // c
+    /// triple
+    @leftPad('0')
+    Pad @calculatedFrom(""" ++ [233]%N ++ runes_of_ascii "t" ++ [233]%N ++ runes_of_ascii """) `100% of %d`,
+    uint64 u `crlf
+    line`,
+    @calculatedFrom(""a	b"")
+    @leftPad()
+    @tag(00)
+    repeat Packet Packet,
+    float64 a1 `" ++ [28040; 24687; 31867; 22411]%N ++ runes_of_ascii "`,
+}
+
+packet string_ {
+    T {
+        char[] u `crlf
+        line`,
+    },
+    @tag(42)
+    repeat char[255] Foo,
+    @lengthOf(_x)
+    @calculatedFrom(""abc"")
+    _x `" ++ [28040; 24687; 31867; 22411]%N ++ runes_of_ascii "`,
+    char[00] Packet `line1
+    line2`,
+    @lengthOf(calculatedFrom)
+    repeat Pad matchKey,
+    @calculatedFrom(""" ++ [28040; 24687]%N ++ runes_of_ascii """)
+    uint16 rootA,
+    f64 msg_type,
+}
+
+packet int {
+    @lengthOf(A)
+    repeat Foo {
+        uint32 crc @calculatedFrom(""\n""),
+    },
+}
+
+options {
+    Z9_ = '\x00';
+    Pad = '\x00';
+    options1 = '\x00';
+    matchKey = 3
+    asx = ""// no comment""
+}")).
+Eval vm_compute in ("<<<M1377>>>" ++ check (runes_of_ascii "MetaData  chars{ i64	zchar `a\`
+    , } // " ++ [27880; 37322]%N ++ runes_of_ascii "
+packet f32a
+    { @tag( 00
+    ) match
+    // 50% %s
+    BodyLength as u128
+    { [0 ] : rootA , [	""{,}""
+    , 0
+    ]: matchKey ""it's""
+: stringy ,
+""""	: As, }, @calculatedFrom( ""a\\"" // @lengthOf(
+)
+//x
+// packet A { u8 x, }
+matchKey	@lengthOf( i8i8 )`a\`
+,@calculatedFrom(	""it's"" ) string
+    x_y_z, // `tick` ""quote"" 'q'
+@lengthOf(repeatCount
+) //x
+char[ 00 ]Header  `
+`,
+    // a // b
+    } root
+    packet u
+{ As @lengthOf( f32a ) `" ++ [233]%N ++ runes_of_ascii "` , @calculatedFrom( ""it's"" )
+@tag(7
+)  zchar[
+0 //x
+]
+    As	@lengthOf( //
+zchar
+    ) `say ""hi""`,// `tick` ""quote"" 'q'
+@rightPad ( '\x00' )
+match/// triple
+T as len { 4294967296: metadata ,0: x } ,  repeat
+// `tick` ""quote"" 'q'
+// " ++ [128512]%N ++ runes_of_ascii " emoji
+trueish , // @lengthOf(
+@calculatedFrom(""" ++ [233]%N ++ runes_of_ascii "t" ++ [233]%N ++ runes_of_ascii """
+) @lengthOf( lengthOf
+    )
+    @rightPad( '\x00' )repeat char[  255  ] string_ `" ++ [233]%N ++ runes_of_ascii "`
+, T	{
+repeat
+// 50% %s
+// c
+crc msg_type
+,uint64
+    u8x
+    , len
+BodyLength ,
+    }
+,	} MetaData BodyLength{options1 MetaDataX ,
     }
 ")).
-Eval vm_compute in ("<<<M1742>>>" ++ check (runes_of_ascii "  packet  o{
-	repeat
-    Logon uint8x, } options 
+Eval vm_compute in ("<<<M314>>>" ++ check (runes_of_ascii "options {
+//x
+//	t
+}MetaData crc
+    { //
+uint32 packetx`line1
+line2`	, }	options
+    {// packet A { u8 x, }
+trueish=
+// c
+// packet A { u8 x, }
+true falsey	=false f32a= zchar[
+255 ]
+trueish=
+255	Z9_
+= ""\n""
+;} packet repeatCount
+{
+asx { match _x as msg_type// @lengthOf(
+{ 0123456789
+// " ++ [128512]%N ++ runes_of_ascii " emoji
+// 50% %s
+:trueish ,
+[42
+    ]
+    : matchKey // packet A { u8 x, }
+, """ ++ [28040; 24687]%N ++ runes_of_ascii """ :
+    roots, [ 1 ] :
+As} , }
+    , @calculatedFrom( ""// no comment"") char metadata
+    ,
+repeat	rootA
+{ int64	stringy@calculatedFrom(
+""1""
+    ) , u32
+    // `tick` ""quote"" 'q'
+    T, } , float32
+i64_ ,repeat
+zchar[ 007
+]
+T
+`say ""hi""` ,repeat
+// 50% %s
+// " ++ [128512]%N ++ runes_of_ascii " emoji
+tag
+{int8 crc `crlf
+line` ,
+repeat	o {repeat
+    f32a, } ,repeat i16
+    Z9_ `" ++ [233]%N ++ runes_of_ascii "`, zchar[3  ]
+    body @lengthOf( Packet ) , }
+, @lengthOf( o ) match uint8x as As{
+    255: T , } ,f32a @lengthOf(leftPad
+    ) , BodyLength
+_x`it's`, //	t
+repeat asx{ char[ 10
+] i64_ @lengthOf( u
+    )
+,
+} ,
+} //x")).
+Eval vm_compute in ("<<<M872>>>" ++ check (runes_of_ascii "packet a1{ @calculatedFrom( ""a\\"" ) // " ++ [128512]%N ++ runes_of_ascii " emoji
+match
+    u8x as
+    Foo {[ 007 , 255
+, ""it's""
+] : T , } ,
     // c
-	{  asx
-= zchar[3]
-stringy 
+    @leftPad ('\x00' // trailing space 
+)
+u ,
+    @tag( 4294967296
+)
+char[
+0
+    ] Packet `a\` , int32 a1
+, }packet // c
+Packet { @leftPad
+( ' ')float64 repeatCount @lengthOf( len ) ,  @lengthOf( asx )
+    zchar[ 4294967296 ]Logon
+, @calculatedFrom( ""\" ++ [233]%N ++ runes_of_ascii """ /// triple
+)repeat tag
+len
+    , repeatCount @calculatedFrom( ""x y""	) // " ++ [128512]%N ++ runes_of_ascii " emoji
+, } packet pack {
+    @calculatedFrom(""\n"" )	u , }	packet f32a
+    { @tag(10 )
+char[255]  body@calculatedFrom( ""CRC32""  ) , Foo`100% of %d` , @leftPad (  '\x00'//x
+) //	t
+char[] stringy,
+    @leftPad
+// " ++ [128512]%N ++ runes_of_ascii " emoji
+//x
+( '\x00'
+    ) zchar[
+42 ]i8i8 , leftPad @lengthOf(  zchar
+    ) ,
+@rightPad ( '0' )
+@rightPad
+(	' ') @lengthOf(
+Packet) charz ,
+} options {
+    Pad =
+""\n""
+    // `tick` ""quote"" 'q'
+    int ='0' ;
+options1
+    =
+0 ;	}
+")).
+Eval vm_compute in ("<<<M1241>>>" ++ check (runes_of_ascii "packet
+uint8x {
+u32// 50% %s
+body	,	repeat string // packet A { u8 x, }
+tag  ,	@calculatedFrom( ""CRC32"") string_  int// " ++ [27880; 37322]%N ++ runes_of_ascii "
+,i8 u128 , @lengthOf( // packet A { u8 x, }
+_x//x
+) uint16 trueish
+    `say ""hi""` ,@tag(
+10 )@lengthOf( int	) @rightPad (
+    '\x00'  ) x_y_z
+body
+, As @calculatedFrom(""// no comment"" ) ,
+// c
+//	t
+repeat uint8 Z9_// c
+, } packet
+trueish {
+    char
+    u @calculatedFrom(
+""{,}"" ) ,@tag(7
+) // " ++ [27880; 37322]%N ++ runes_of_ascii "
+i8
+    a1  ,crc @lengthOf( // " ++ [128512]%N ++ runes_of_ascii " emoji
+chars ) `say ""hi""` , zchar[ 42 ]
+metadata ``
+    , float64  repeatCount
+`` , @lengthOf( /// triple
+chars
+    // " ++ [128512]%N ++ runes_of_ascii " emoji
+    ) repeat  Logon
+// 50% %s
+// " ++ [128512]%N ++ runes_of_ascii " emoji
+{ string len@lengthOf(
+    crc)
+    ,u128	@lengthOf( x) , } ,
+Packet { i8 uint8x
+    ,repeatCount
+Packet `" ++ [233]%N ++ runes_of_ascii "`,i64 lengthOf ,  MetaDataX
+{ zchar[ 10]
+    // " ++ [128512]%N ++ runes_of_ascii " emoji
+    a1
+    @lengthOf( metadata),
+} ,
+    /// triple
+    } ,
+    }
+")).
+Eval vm_compute in ("<<<M178>>>" ++ check (runes_of_ascii "packet Pad {	repeat uint8x { char[]
+Z9_, }
+    , repeat zchar[	10
+    ] i8i8,
+    x, repeat
+    string_
+    { // @lengthOf(
+repeat asx Foo ,int16	i8i8 ,  char[]matchKey, match
+calculatedFrom
+as roots { 3//
+:x_y_z , }
+, } , @lengthOf( x // packet A { u8 x, }
+)
+repeat // trailing space 
+o`a\` , char[] /// triple
+string_
+    `{ , }` ,} options{ f32a
+=false A= false } packet u128{
+@calculatedFrom( """ ++ [128512]%N ++ runes_of_ascii """ ) string a1,@tag( 00 )
+char[
+10
+]  A
+`" ++ [233]%N ++ runes_of_ascii "`,char[65535 ] len , @tag(	00 ) @rightPad ( '\x00' )@calculatedFrom( ""1"" )
+zchar[ 7
+] // trailing space 
+body ,
+    @calculatedFrom( ""{,}"") i64_ { repeat
+    // a // b
+    uint8x tag	`u8 x,` ,
+}, string_ A  , @calculatedFrom( ""x y"" )  @tag( 42 )
+i16 pack // a // b
+,	@rightPad (
+)A{ Z9_
+,  }
+// packet A { u8 x, }
+// @lengthOf(
+,
+tag
+BodyLength ,
+    }")).
+Eval vm_compute in ("<<<M4253>>>" ++ check (runes_of_ascii "// `tick` ""quote"" 'q'
+packet Packet {
+    char Header `crlf
+    line`,
+}
+
+options {
+    falsey = ""a	b"";
+}
+
+packet Pad {
+    repeat charz {
+        int32 Pad `a\`,
+        /// triple
+        // 50% %s
+        char[0123456789] u128 @calculatedFrom(""packet"") `// not a comment`,// @lengthOf(
+        _x i64_,
+        match o as tag {
+            [00] : pack,
+        },
+    },
+    @lengthOf(stringy)
+    f32 body `tab	here`,
+    repeat string_,
+    @lengthOf(lengthOf)
+    rootA @lengthOf(x),
+    i8i8 Packet,
+    @tag(3)
+    zchar[0123456789] A `// not a comment`,
+    repeat char[] BodyLength `{ , }`,
+    A stringy,
+}
+
+root packet a1 {
+}
+
+MetaData msg_type {
+    string_ A,
+    uint16 f32a,
+    /// triple
+    // @lengthOf(
+    asx MetaDataX,
+    zchar[00] msg_type,
+}")).
+Eval vm_compute in ("<<<M3853>>>" ++ check (runes_of_ascii "  packet chars {// " ++ [27880; 37322]%N ++ runes_of_ascii "
+    	@tag(1
+
+) crc
+	,	repeat  T
+
+    { 
+lengthOf 
+@lengthOf( chars )  `{ , }`
+, 
+repeat 
+zchar[
+	0123456789 ]
+
+    int	,
+
+} ,repeat  // " ++ [27880; 37322]%N ++ runes_of_ascii "
+zchar[ 
+42]
+	x
+
+    `two words`, zchar[ 65535
+]
+asx
+        // @lengthOf(
+	,
+calculatedFrom  ,
+    _x  leftPad 
+
+    // trailing space 
+  ,//x
+	Pad{ 
+int16 
+x
+
+    `tab	here`  ,
+	} , i64 charz
+
+    @calculatedFrom(
+
+""abc""
+
+    )  ,
+} options {
+
+    a1= 42
+Packet = true ;  // packet A { u8 x, }
+	Foo =
+	'0'
+
+    As
+
+=true
+
+    ; 	 /// triple
+    Foo = zchar[
+    3	]
+	;}packet 
+a1
+    { 
+@calculatedFrom(
+
+""abc""//x
+
+)  metadata
+
+    ,
+	@rightPad
+    ('0'
+    ) Z9_
+,  @lengthOf(  packetx
+)
+	o@lengthOf(
+Header)  `it's`,char[]
+	int
+	@lengthOf( msg_type) , }
+
+")).
+Eval vm_compute in ("<<<M3720>>>" ++ check (runes_of_ascii "packet x_y_z {
+    u16 a1,
+}
+
+MetaData MetaDataX {
+    char[] uint8x,
+    int64 zchar,
+    charz pack `crlf
+    line`,//x
+    float32 _x `// not a comment`,
+    lengthOf stringy,
+}
+
+packet pack {
+    u8 lengthOf @lengthOf(u8x) `100% of %d`,
+    repeat i64 Z9_,
+    zchar[255] o @calculatedFrom(""a	b"") ``,
+    match string_ as a1 {
+        ""CRC32"" : A,
+        [""1"", ""{,}""] : roots,
+        [
+            255, 4294967296, 42, 1, 255,
+            ""// no comment"", 1, ""x y""
+        ] : u8x,
+        007 : As,
+        [
+            """ ++ [28040; 24687]%N ++ runes_of_ascii """, 0123456789, """ ++ [128512]%N ++ runes_of_ascii """, ""a\\"", 007,
+            ""// no comment"", 10, 3
+        ] : u,
+        1 : zchar,
+    },
+    uint8 packetx `100% of %d`,
+    @rightPad()
+    char[1] Header,
+}")).
+Eval vm_compute in ("<<<M947>>>" ++ check (runes_of_ascii "packet
+    //	t
+    tag{ @tag( // trailing space 
+1
+    ) @calculatedFrom( ""abc"" ) char[]
+Logon  ,char[] Logon@calculatedFrom(
+""a\\""), uint8x {
+// a // b
+//
+char[] float ,repeat char[] zchar
+, match f32a as f32a
+{
+    ""abc"" : options1
+,007 : _x 10
+// c
+// packet A { u8 x, }
+:
+BodyLength ,
+} ,
+},@lengthOf( f32a )
+@lengthOf( Header
+    )
+    @lengthOf(msg_type
+) repeat Logon i64_ , @calculatedFrom(
+""" ++ [28040; 24687]%N ++ runes_of_ascii """) repeat int roots , /// triple
+@lengthOf( zchar ) i16
+    stringy
+@calculatedFrom( ""it's"")
+    `u8 x,`
+,	@calculatedFrom(// @lengthOf(
+""{,}"" ) match string_
+as MetaDataX{
+[
+""// no comment"" //x
+,
+    007 ]	: i8i8, [ 1 // c
+, ""packet""]: trueish , } ,
+//
+/// triple
+}")).
+Eval vm_compute in ("<<<M545>>>" ++ check (runes_of_ascii "
+root packet Z9_ {f64 _x
+    /// triple
+    ,	@rightPad ( )
+char
+    string_,
+    i8i8 @lengthOf( // c
+u8x)
+,
+    repeat
+    /// triple
+    u32
+f32a,
+    match trueish as
+calculatedFrom
+// `tick` ""quote"" 'q'
+//
+{ ""1"" : float, }
+, repeat // @lengthOf(
+zchar[  3 ]packetx `100% of %d` , repeat falsey
+    , match crc as Packet { [ ""CRC32""
+    // 50% %s
+    ]:
+    // packet A { u8 x, }
+    Z9_}
+    , @tag(
+//
+// 50% %s
+4294967296 // a // b
+) o
+@calculatedFrom(
+""" ++ [233]%N ++ runes_of_ascii "t" ++ [233]%N ++ runes_of_ascii """ )
+,
+    repeat  o  ,
+}
+    packet stringy {}packet options1
+    //x
+    {
+    string a1
+@calculatedFrom(""// no comment"" ) `doc` , } packet
+    matchKey// " ++ [128512]%N ++ runes_of_ascii " emoji
+{ char[ 00
+] uint8x,	}
+")).
+Eval vm_compute in ("<<<M3456>>>" ++ check (runes_of_ascii "options {
+    StringPrefixLenType = u64;
+    ArrayPrefixLenType = u16;
+}
+packet Heartbeat {
+    uint32 Side2,
+    u8 OrderId,
+    string Tail,
+    InPx95 {
+        char[3] Note,
+        char[2] count,
+        repeat InOrderid76 {
+            char[12] f1,
+        },
+        uint8 lastPx,
+        char[] seqNo,
+    },
+}
+packet Leg {
+    zchar[5] tag7,
+    Heartbeat,
+}
+root packet Reject {
+    u8 Ref,
+    uint8 Flags,
+    repeat Leg,
+    zchar[1] venue,
+    zchar[9] clOrdID,
+    u8 Tail,
+    u32 price @lengthOf(Body),
+    match Tail as Body {
+        84 : Heartbeat,
+        6 : Leg,
+    },
+    u32 Note @calculatedFrom(""CRC32""),
+}
+")).
+Eval vm_compute in ("<<<M3780>>>" ++ check (runes_of_ascii "packet x {@lengthOf(
+
+    x
+    ) 
+repeat char[]  chars
+    `{ , }`
+,	}
+	root
+
+    packet
+MetaDataX
+
+    {
+    u128 @calculatedFrom(  ""{,}"" 
+    // packet A { u8 x, }
+// trailing space 
+	)
+    , repeat char[] Logon`tab	here`,
+
+    x_y_z{
+
+    uint32
+
+MetaDataX
+@calculatedFrom( 
+""a\\"" ), }  ,	// `tick` ""quote"" 'q'
+    	i64 Pad  
+  //	t
+  `a\` ,
+
+    }
+
+    packet rootA {
+
+repeat MetaDataX tag  `" ++ [28040; 24687; 31867; 22411]%N ++ runes_of_ascii "` ,
+repeat 
+u8x  charz
+,	@calculatedFrom(""CRC32"" 
+) falsey
+{  uint32
+	Foo
+    ,	repeat float64
+
+uint8x,
+	a1@lengthOf(
+    string_ ) 	 // trailing space 
+	, }
+, 	 // `tick` ""quote"" 'q'
+} ")).
+Eval vm_compute in ("<<<M956>>>" ++ check (runes_of_ascii "packet tag
+{@tag( 10  ) // " ++ [27880; 37322]%N ++ runes_of_ascii "
+match
+float
+as
+    // trailing space 
+    int  { ""a\""b"" : //x
+msg_type
+// `tick` ""quote"" 'q'
+// packet A { u8 x, }
+,
+""a\""b"" : body, [ ""a\""b""
+    ,
+65535 , ""a	b"" ] :  Foo // c
+, 255:// `tick` ""quote"" 'q'
+trueish , [
+    0123456789, // a // b
+0123456789
+] :
+leftPad, [ ""abc"", 7
+    ,0123456789 ,
+    ""a\\"" ,""a\\"" , ""1"" , ""packet""	, // 50% %s
+""{,}""]  : repeatCount , }
+,
+repeat u8x { float32 len@lengthOf( options1
+) `line1
+line2` , },@tag( //x
+007 ) @leftPad ('\x00'
+)	char[00
+]As// " ++ [27880; 37322]%N ++ runes_of_ascii "
+,@calculatedFrom( ""\" ++ [233]%N ++ runes_of_ascii """	) // a // b
+string i64_ ,	char[]f32a, }
+")).
+Eval vm_compute in ("<<<M4339>>>" ++ check (runes_of_ascii "  packet BodyLength // `tick` ""quote"" 'q'
+	{
+Foo BodyLength, char[]int
+
+    @calculatedFrom(	""// no comment"") ,	match
+pack	as
+
+    i8i8 
+    // c
+    // c
+{""a\""b"" 
+: 
+
+    // c
+//x
+    	rootA	, 
+}, }
+MetaData
+	pack	{
+pack
+    packetx// `tick` ""quote"" 'q'
+	, 
+i8
+f32a ,
+    u64 MetaDataX
+,
+	} options
+
+    {  tag 
+=/// triple
+      true
+
+// a // b
+;falsey
+	= 
+true // " ++ [128512]%N ++ runes_of_ascii " emoji
+
+  trueish
+    =
+
+    ""1"" 
+;
+    T
+    // 50% %s
+	=
+
+    7
+Z9_	=
+	'0'	// `tick` ""quote"" 'q'
+    ;  }  options { 
+leftPad
+	= true;options1	=
+float64  Header
 =
 
-'\x00'  }")).
-Eval vm_compute in ("<<<M1462>>>" ++ check (runes_of_ascii "packet B {
+' '  }// " ++ [27880; 37322]%N ++ runes_of_ascii "
+ 
+")).
+Eval vm_compute in ("<<<M504>>>" ++ check (runes_of_ascii "packet i8i8
+{match
+Pad as u8x {
+""CRC32""
+    // @lengthOf(
+    : metadata ,
+[ 7 , 65535// c
+] : matchKey/// triple
+,
+} , metadata
+@calculatedFrom(
+    //	t
+    ""// no comment""// a // b
+)	, uint32
+f32a `
+` // 50% %s
+,
+@tag(255)	@tag( 1 ) @leftPad ( //
+' '
+    )int32 Foo
+    `100% of %d` ,
+    string falsey @lengthOf(i64_) , @calculatedFrom( ""\n""
+)i8i8
+`{ , }`	, lengthOf u8x , @lengthOf(
+    // @lengthOf(
+    uint8x)
+MetaDataX // " ++ [128512]%N ++ runes_of_ascii " emoji
+{ repeat A i64_ `" ++ [233]%N ++ runes_of_ascii "` ,} , a1`u8 x,` , Z9_@calculatedFrom(
+// c
+/// triple
+""\" ++ [233]%N ++ runes_of_ascii """ ) // a // b
+, }
+")).
+Eval vm_compute in ("<<<M1337>>>" ++ check (runes_of_ascii "packet
+    x	{ @lengthOf( x
+    // " ++ [128512]%N ++ runes_of_ascii " emoji
+    ) // `tick` ""quote"" 'q'
+match _x as
+    o { """ ++ [28040; 24687]%N ++ runes_of_ascii """ :
+    crc, ""a	b""
+    :tag, 007 : // " ++ [128512]%N ++ runes_of_ascii " emoji
+packetx , [ // " ++ [128512]%N ++ runes_of_ascii " emoji
+""x y"" ] : options1
+,}	,
+    @calculatedFrom(  ""a	b""
+    )match string_  as tag  {007
+//
+//x
+:  uint8x ""// no comment""
+:
+i64_
+    , 007: uint8x
+    ,
+}
+, }
+packet calculatedFrom { repeat
+    pack {charz options1 `" ++ [233]%N ++ runes_of_ascii "` ,	} ,
+    // `tick` ""quote"" 'q'
+    msg_type
+{ // @lengthOf(
+char[] crc
+    //x
+    , options1`" ++ [233]%N ++ runes_of_ascii "`,metadata body `100% of %d` ,} ,}
+
+")).
+Eval vm_compute in ("<<<M1126>>>" ++ check (runes_of_ascii "packet
+i8i8 // " ++ [128512]%N ++ runes_of_ascii " emoji
+{@calculatedFrom( ""abc""
+    ) match _x  as trueish {
+[
+007 ,4294967296 , 4294967296 ] : // trailing space 
+uint8x ,""{,}"" :
+stringy ,
+4294967296
+    // c
+    : packetx ,
+    //	t
+    [ // trailing space 
+10
+    , 1
+]// trailing space 
+:
+chars
+, """"
+:
+    u8x
+, }, @calculatedFrom(
+""" ++ [28040; 24687]%N ++ runes_of_ascii """ )
+u32 u @lengthOf( u128 ) ,
+As @calculatedFrom(""a	b"" )
+    ,@leftPad (' '
+) @calculatedFrom(	""1""
+    )@calculatedFrom( ""\" ++ [233]%N ++ runes_of_ascii """
+    ) //
+zchar[ 1 // packet A { u8 x, }
+]
+MetaDataX
+,}")).
+Eval vm_compute in ("<<<M3319>>>" ++ check (runes_of_ascii "root packet trueish // c2
+{ // c3a
+  // c3b
+} // c4
+MetaData // c5a
+  // c5b
+x_y_z // c6
+{
+    // c7
+zchar[ 7 // c9
+]
+    // c10
+body , // c12
+BodyLength // c13a
+  // c13b
+_x // c14
+, // c15
+i8i8 As ,
+    // c18
+i8 Foo // c20
+, } packet // c23a
+  // c23b
+f32a // c24
+{ @lengthOf(
+    // c26
+x ) // c28
+match // c29
+Foo // c30
+as // c31
+trueish // c32a
+  // c32b
+{ // c33a
+  // c33b
+10 : // c35
+f32a // c36a
+  // c36b
+, // c37a
+  // c37b
+}
+    // c38
+,
+    // c39
+} ")).
+Eval vm_compute in ("<<<M517>>>" ++ check (runes_of_ascii "root packet
+crc{
+@tag(	255  ) @lengthOf( len ) @rightPad ( '0'
+)repeatCount
+    {
+char[]
+a1 ,u8x @lengthOf( i64_ ) `" ++ [233]%N ++ runes_of_ascii "` // @lengthOf(
+, },
+//	t
+// 50% %s
+@leftPad
+(
+    // trailing space 
+    ' ' ) x metadata , calculatedFrom {
+A Logon , roots { i64 T@calculatedFrom( ""CRC32""
+    // packet A { u8 x, }
+    )	, } , repeat packetx{match tag as body{ [	""1""
+    ,  ""CRC32"" ] : x ,} , } // packet A { u8 x, }
+, repeat lengthOf T `u8 x,` , }
+    , }")).
+Eval vm_compute in ("<<<M3504>>>" ++ check (runes_of_ascii "
+
+  packet
+    metadata { zchar[
+1 ]
+	stringy
+, repeat float uint8x 
+,	@tag( 255  )
+
+// `tick` ""quote"" 'q'
+
+	zchar 
+	// `tick` ""quote"" 'q'
+		@lengthOf(_x
+)  ,
+tag@lengthOf(/// triple
+	i64_
+
+)
+
+, repeat
+	repeatCount	{
+
+    char o 
+    // `tick` ""quote"" 'q'
+    , char[ 
+7 ] T,
+    }  ,
+}root
+packet
+    u8x { @tag(
+
+0
+	) repeat falsey
+	string_  ,
+@calculatedFrom( """"
+
+)
+    lengthOf
+
+    ,
+u16
+    calculatedFrom
+, } ")).
+Eval vm_compute in ("<<<M4318>>>" ++ check (runes_of_ascii "packet Frame {
+    u8 HK,
+    u8 BK,
+    u8 TK,
+    match HK as Hdr {
+        1 : HdrA,
+        2 : HdrB,
+    },
+    match BK as Body {
+        1 : BodyA,
+        2 : BodyB,
+    },
+    match TK as Trl {
+        1 : TrlA,
+    },
+}
+
+packet HdrA {
     u8 a,
-    string s,
 }
-root packet P {
-    u16 L @lengthOf(B),
-    B,
-    u8 t,
+
+packet HdrB {
+    u16 b,
 }
-")).
-Eval vm_compute in ("<<<M864>>>" ++ check (runes_of_ascii "packet A {
-  match k as n {
-    [1, ""bb"", 007, ""d"", 5, ""f"", 7, ""h"", 9] : B,
-    2 : C
-  },
+
+packet BodyA {
+    u32 c,
+}
+
+packet BodyB {
+    u64 d,
+}
+
+packet TrlA {
+    u8 e,
+}
+
+root packet Msg {
+    Frame,
+    u8 x,
 }")).
-Eval vm_compute in ("<<<M1182>>>" ++ check (runes_of_ascii "MetaData float // c
-{ float64 charz `
-` , } root packet chars { @rightPad ( '0' ) Foo , }")).
-Eval vm_compute in ("<<<M1214>>>" ++ check (runes_of_ascii "MetaData float { float64 charz `
-` , } root packet chars { @rightPad ( '0' ) Foo , // c
-}")).
-Eval vm_compute in ("<<<M1425>>>" ++ check (runes_of_ascii "packet chars { } packet MetaDataX { @tag( 42 ) i16 string_ , repeat x
+Eval vm_compute in ("<<<M1244>>>" ++ check (runes_of_ascii "packet	zchar{
+} options  { int = ""{,}""; } packet zchar
+{@calculatedFrom(""1"" )
+    match
+    trueish
+as falsey {""it's"" :x [ 00 ,
+    255 , ""`tick`""
+,
+    // trailing space 
+    007
+    // 50% %s
+    ,
+    10 , 4294967296 , ""a\\""	,""CRC32""
+    ] :	float
+    , } // trailing space 
+, match Logon as o
+{
+007 : lengthOf 255 : zchar
+    ,
+}
+    , u64// trailing space 
+packetx //
+`tab	here` , } 	 ")).
+Eval vm_compute in ("<<<M728>>>" ++ check (runes_of_ascii "MetaData  len{
+}
+packet BodyLength{ char[
+42
+    ]A@calculatedFrom(""// no comment"" ) `it's`// 50% %s
+,match  Header as calculatedFrom
+{ ""`tick`"" :
+    o  , } ,
+//x
+//	t
+repeat
+packetx
+// packet A { u8 x, }
 // c
-`say ""hi""` , }")).
-Eval vm_compute in ("<<<M1122>>>" ++ check (runes_of_ascii "// c
-packet metadata { Logon { A `" ++ [28040; 24687; 31867; 22411]%N ++ runes_of_ascii "` , tag o , } , zchar len `// not a comment` , }")).
-Eval vm_compute in ("<<<M1155>>>" ++ check (runes_of_ascii "packet metadata { Logon { A `" ++ [28040; 24687; 31867; 22411]%N ++ runes_of_ascii "` , tag o , } , zchar len `// not a comment`
-// c
-, }")).
-Eval vm_compute in ("<<<M1360>>>" ++ check (runes_of_ascii "packet o { repeat Logon uint8x , } options { asx // c
-= zchar[ 3 ] stringy = '\x00' }")).
-Eval vm_compute in ("<<<M2083>>>" ++ check (runes_of_ascii "packet A {
-    match k as n {
-        [1, 22, ""c c"", 4] : B,
-        2 : C,
+,}
+packet u { }packet x_y_z { @lengthOf(repeatCount
+) char[] charz @calculatedFrom(
+    ""it's"" // 50% %s
+)`` ,
+    }
+packet
+calculatedFrom // `tick` ""quote"" 'q'
+{}")).
+Eval vm_compute in ("<<<M3555>>>" ++ check (runes_of_ascii "options {
+}
+
+options {
+    As = true
+    As = char[0123456789]
+    calculatedFrom = ""\n"";
+    i64_ = true;
+    // c
+    //
+}
+
+root packet repeatCount {
+    @rightPad('\x00')
+    match Z9_ as zchar {
+        ""\n"" : Pad,
+        // 50% %s
+        ""CRC32"" : options1,
+        ""x y"" : o,
+        7 : A,
     },
-}")).
-Eval vm_compute in ("<<<M1321>>>" ++ check (runes_of_ascii "MetaData body { i64 pack `it's` , } packet // c
-stringy { int16 calculatedFrom , }")).
-Eval vm_compute in ("<<<M1468>>>" ++ check (runes_of_ascii "options {
-    FixedStringPadFromLeft = true;
 }
-root packet P {
-    char[4] z,
-}
-")).
-Eval vm_compute in ("<<<M806>>>" ++ check (runes_of_ascii "packet A {
-  match k as n {
-    [""a"", ""bb"", 007, ""d""] : B
-    2 : C
-  },
+
+packet asx {
+    zchar u128 `crlf
+        line`,
 }")).
-Eval vm_compute in ("<<<M792>>>" ++ check (runes_of_ascii "packet A {
-  match k as n {
-    [""a"", ""bb"", 007] : B,
-    2 : C
-  },
-}")).
-Eval vm_compute in ("<<<M1093>>>" ++ check (runes_of_ascii "packet A {
-    match k as n {
-        1 : B,
-        // c
-    },
-}")).
-Eval vm_compute in ("<<<M934>>>" ++ check (runes_of_ascii "MetaData M {
-    u8 x `a
-    b
-  c`,
-    T t `a
-    b
-  c`,
-}")).
-Eval vm_compute in ("<<<M1281>>>" ++ check (runes_of_ascii "packet x {
-// c
-@rightPad ( ) repeat roots Logon `doc` , }")).
-Eval vm_compute in ("<<<M165>>>" ++ check (runes_of_ascii "packet x
-{ @lengthOf( x_y_z )
-BodyLength tag // c
+Eval vm_compute in ("<<<M807>>>" ++ check (runes_of_ascii "root
+packet// packet A { u8 x, }
+repeatCount
+{
+    repeat calculatedFrom {char[4294967296 ] // " ++ [27880; 37322]%N ++ runes_of_ascii "
+msg_type `it's`
+//
+/// triple
+, } , match // " ++ [27880; 37322]%N ++ runes_of_ascii "
+repeatCount as u8x {  [ 0
+, ""a	b"" , ""a\\"" , ""CRC32"" , ""`tick`"" , ""a\""b"" ] : tag
+,
+// `tick` ""quote"" 'q'
+// trailing space 
+7
+    // " ++ [27880; 37322]%N ++ runes_of_ascii "
+    :Z9_ 3 :leftPad}
+// " ++ [128512]%N ++ runes_of_ascii " emoji
+// packet A { u8 x, }
 ,}
 ")).
-Eval vm_compute in ("<<<M1438>>>" ++ check (runes_of_ascii "root packet P {
+Eval vm_compute in ("<<<M4368>>>" ++ check (runes_of_ascii "packet f32a {
+    @lengthOf(stringy)
+    // trailing space 
+    char[42] body,
+    trueish o,
+    char[] rootA @calculatedFrom(""// no comment"") ``,
+    calculatedFrom `crlf
+    line`,
+}
+
+MetaData o {
+    i8i8 i8i8 `100% of %d`,
+    msg_type Z9_,// " ++ [27880; 37322]%N ++ runes_of_ascii "
+    uint32 matchKey,// a // b
+}
+
+options {
+    crc = char[];
+}// @lengthOf(")).
+Eval vm_compute in ("<<<M399>>>" ++ check (runes_of_ascii "root packet  calculatedFrom { i64_
+Packet `crlf
+line` ,
+zchar[
+    42 ] Foo @lengthOf( /// triple
+tag )
+`tab	here`,
+    }packet
+As {
+    // @lengthOf(
+    zchar[  42 ] options1 , u128 @calculatedFrom( ""{,}"") , u8 matchKey  `" ++ [233]%N ++ runes_of_ascii "`
+, } packet chars { @tag( // a // b
+3 ) i16 uint8x , @tag( 10 /// triple
+) f32a ,  }
+")).
+Eval vm_compute in ("<<<M1208>>>" ++ check (runes_of_ascii "MetaData chars // trailing space 
+{ zchar[  255
+]
+uint8x ,  u8
+body
+, // " ++ [27880; 37322]%N ++ runes_of_ascii "
+char[ 1] // packet A { u8 x, }
+A
+//	t
+// a // b
+, float32 As
+    `` // @lengthOf(
+, BodyLength roots //
+`// not a comment` ,
+    } options {Pad
+=42 ;	pack
+=	true pack = false ; // 50% %s
+len = ' '// trailing space 
+; }
+")).
+Eval vm_compute in ("<<<M1335>>>" ++ check (runes_of_ascii "packet
+    // a // b
+    calculatedFrom
+{ @calculatedFrom(
+    ""1"" )
+repeat options1
+{ crc @lengthOf(	i8i8 ) `it's` , i8 lengthOf
+    `tab	here` ,
+    zchar @lengthOf( pack) , }
+, char[ 42 ] trueish @lengthOf( // " ++ [27880; 37322]%N ++ runes_of_ascii "
+Packet ) ,zchar[10 ] a1  , }MetaData // c
+lengthOf { string float , }
+")).
+Eval vm_compute in ("<<<M1133>>>" ++ check (runes_of_ascii "MetaData	_x// " ++ [27880; 37322]%N ++ runes_of_ascii "
+{// @lengthOf(
+} options
+{i64_ = ' ' ;calculatedFrom	= 00 uint8x
+=	i16;
+leftPad = '0'
+    }  packet
+// " ++ [128512]%N ++ runes_of_ascii " emoji
+// " ++ [128512]%N ++ runes_of_ascii " emoji
+As {
+@lengthOf(_x)@tag(
+007 ) @calculatedFrom( """ ++ [233]%N ++ runes_of_ascii "t" ++ [233]%N ++ runes_of_ascii """
+    ) zchar[
+0]f32a // trailing space 
+@calculatedFrom( ""1"")
+    `a\` ,
+} // " ++ [128512]%N ++ runes_of_ascii " emoji")).
+Eval vm_compute in ("<<<M1642>>>" ++ check (runes_of_ascii "// 50% %s
+packet	a1
+    { zchar[
+// a // b
+// 50% %s
+007]
+T `it's`
+    ,@rightPad
+    // a // b
+    (
+'\x00')
+    o repeatCount , }  packet Logon {  }packet	Logon //x
+{ repeat // " ++ [128512]%N ++ runes_of_ascii " emoji
+uint16 uint16 u128
+    //
+    `a\`,
+falsey
+@calculatedFrom(""packet"" ) ,
+    } 	 ")).
+Eval vm_compute in ("<<<M1679>>>" ++ check (runes_of_ascii "// 50% %s
+packet	a1
+    { zchar[
+// a // b
+// 50% %s
+007]
+T `it's`
+    ,@rightPad
+    // a // b
+    (
+'\x00')
+    o repeatCount , }  packet Logon {  }packet	Logon //x
+{ repeat // " ++ [128512]%N ++ runes_of_ascii " emoji
+uint16 u128
+    //
+    `a\`,
+falsey
+@calculatedFrom(""packet"" true ,
+    } 	 ")).
+Eval vm_compute in ("<<<M1533>>>" ++ check (runes_of_ascii "// 50% %s
+packet	a1
+    { 007
+// a // b
+// 50% %s
+zchar[ ]
+T `it's`
+    ,@rightPad
+    // a // b
+    (
+'\x00')
+    o repeatCount , }  packet Logon {  }packet	Logon //x
+{ repeat // " ++ [128512]%N ++ runes_of_ascii " emoji
+uint16 u128
+    //
+    `a\`,
+falsey
+@calculatedFrom(""packet"" ) ,
+    } 	 ")).
+Eval vm_compute in ("<<<M1613>>>" ++ check (runes_of_ascii "// 50% %s
+packet	a1
+    { zchar[
+// a // b
+// 50% %s
+007]
+T `it's`
+    ,@rightPad
+    // a // b
+    (
+'\x00')
+    o repeatCount , }  packet Logon }  {packet	Logon //x
+{ repeat // " ++ [128512]%N ++ runes_of_ascii " emoji
+uint16 u128
+    //
+    `a\`,
+falsey
+@calculatedFrom(""packet"" ) ,
+    } 	 ")).
+Eval vm_compute in ("<<<M1656>>>" ++ check (runes_of_ascii "// 50% %s
+packet	a1
+    { zchar[
+// a // b
+// 50% %s
+007]
+T `it's`
+    ,@rightPad
+    // a // b
+    (
+'\x00')
+    o repeatCount , }  packet Logon {  }packet	Logon //x
+{ repeat // " ++ [128512]%N ++ runes_of_ascii " emoji
+uint16 u128
+    //
+    `a\`
+falsey
+@calculatedFrom(""packet"" ) ,
+    } 	 ")).
+Eval vm_compute in ("<<<M1626>>>" ++ check (runes_of_ascii "// 50% %s
+packet	a1
+    { zchar[
+// a // b
+// 50% %s
+007]
+T `it's`
+    ,@rightPad
+    // a // b
+    (
+'\x00')
+    o repeatCount , }  packet Logon {  }packet	 //x
+{ repeat // " ++ [128512]%N ++ runes_of_ascii " emoji
+uint16 u128
+    //
+    `a\`,
+falsey
+@calculatedFrom(""packet"" ) ,
+    } 	 ")).
+Eval vm_compute in ("<<<M1685>>>" ++ check (runes_of_ascii "// 50% %s
+packet	a1
+    { zchar[
+// a // b
+// 50% %s
+007]
+T `it's`
+    ,@rightPad
+    // a // b
+    (
+'\x00')
+    o repeatCount , }  packet Logon {  }packet	Logon //x
+{ repeat // " ++ [128512]%N ++ runes_of_ascii " emoji
+uint16 u128
+    //
+    `a\`,
+falsey
+@calculatedFrom(""packet"" )")).
+Eval vm_compute in ("<<<M1323>>>" ++ check (runes_of_ascii "  MetaData
+body { asx zchar,/// triple
+crc leftPad `" ++ [28040; 24687; 31867; 22411]%N ++ runes_of_ascii "`, i8 float ,
+//	t
+// @lengthOf(
+f32a  repeatCount, i8i8 i8i8 `" ++ [233]%N ++ runes_of_ascii "` ,} packet packetx
+{
+@lengthOf(
+i8i8) char[] rootA	`// not a comment`
+, @tag( 255 ) zchar[1 ]
+    As
+@lengthOf( asx	) , }
+")).
+Eval vm_compute in ("<<<M3575>>>" ++ check (runes_of_ascii "  MetaData
+Logon
+
+    {len u
+
+,  uint32
+	BodyLength// c
+  ,
+
+charz
+	lengthOf
+`it's` ,
+	uint32
+
+a1 `crlf
+line`
+
+    ,
+Logon // trailing space 
+	  pack	// c
+	  `// not a comment`  , msg_type A	// `tick` ""quote"" 'q'
+	`
+` , }
+")).
+Eval vm_compute in ("<<<M4297>>>" ++ check (runes_of_ascii "
+// " ++ [27880; 37322]%N ++ runes_of_ascii "
+packet
+rootA
+    {
+
+    string
+    // 50% %s
+	Pad
+    `{ , }` ,  }
+
+root packet  // trailing space 
+
+	repeatCount
+    {	@lengthOf( Header  //x
+  )int64 As
+`{ , }`
+, }options
+{
+charz 
+=
+    false
+}	/// triple
+")).
+Eval vm_compute in ("<<<M1206>>>" ++ check (runes_of_ascii "packet  lengthOf{
+@tag( 65535 )	match crc as
+    i8i8 {[65535 , 42 , ""it's"", ""x y"",
+    7,
+    // trailing space 
+    ""a	b""
+] : float , 00
+: MetaDataX , 00 : options1 // 50% %s
+,
+1	: a1,0 : packetx ,
+    },
+    }
+")).
+Eval vm_compute in ("<<<M10>>>" ++ check (runes_of_ascii "
+packet As {
+// " ++ [27880; 37322]%N ++ runes_of_ascii "
+// " ++ [27880; 37322]%N ++ runes_of_ascii "
+Foo , @lengthOf( f32a ) float32 a1 ,	string pack @lengthOf( i64_
+)`crlf
+line`, @rightPad () @leftPad
+    ( '\x00'
+    ) @calculatedFrom(
+""// no comment"") repeat Header charz , }
+")).
+Eval vm_compute in ("<<<M1289>>>" ++ check (runes_of_ascii "options {
+trueish =42 int =
+// trailing space 
+// " ++ [27880; 37322]%N ++ runes_of_ascii "
+' '
+Packet
+    = 007 ;
+asx = string
+    ; }	root packet u8x{}MetaData
+//x
+// packet A { u8 x, }
+int
+{ string charz, // `tick` ""quote"" 'q'
+}")).
+Eval vm_compute in ("<<<M3904>>>" ++ check (runes_of_ascii "// c
+options {
+    // a // b
+}
+
+packet chars {
+    Foo repeatCount,
+}
+
+root packet BodyLength {
+    // c
+    @leftPad()
+    repeat x_y_z {
+        string_ metadata `two words`,
+    },
+}")).
+Eval vm_compute in ("<<<M268>>>" ++ check (runes_of_ascii "  packet
+stringy
+    {	@tag(  0 ) @calculatedFrom(
+    // 50% %s
+    ""1"") @calculatedFrom(
+"""")string chars
+    `a\` , @calculatedFrom(
+    """ ++ [28040; 24687]%N ++ runes_of_ascii """
+) asx metadata
+    `" ++ [233]%N ++ runes_of_ascii "`
+    , }")).
+Eval vm_compute in ("<<<M1056>>>" ++ check (runes_of_ascii "packet// " ++ [128512]%N ++ runes_of_ascii " emoji
+a1{}
+MetaData u{
+} options {
+    } MetaData msg_type { Logon BodyLength // c
+,  i8i8
+    BodyLength
+`100% of %d` , string
+Packet,
+} options{//	t
+}
+
+")).
+Eval vm_compute in ("<<<M822>>>" ++ check (runes_of_ascii "
+MetaData
+x{
+char[] falsey ,
+string a1 ,Foo matchKey
+    `u8 x,`
+,  calculatedFrom
+    metadata `100% of %d`, o	u `" ++ [233]%N ++ runes_of_ascii "`, }	packet
+rootA	{ }
+// packet A { u8 x, }
+")).
+Eval vm_compute in ("<<<M2051>>>" ++ check (runes_of_ascii "MetaData BodyLength BodyLength
+{ int8 Foo
+, string
+    MetaDataX , float zchar ,pack options1
+,asx string_, }
+packet u8x {Foo@lengthOf(charz )
+`" ++ [28040; 24687; 31867; 22411]%N ++ runes_of_ascii "`,  }
+")).
+Eval vm_compute in ("<<<M3968>>>" ++ check (runes_of_ascii "packet leftPad { @leftPad
+
+    (	'0' )
+    i64_ 
+`100% of %d`, repeat// 50% %s
+  i8 chars
+    ,
+
+    }	MetaData f32a{ 	 // packet A { u8 x, }
+
+} ")).
+Eval vm_compute in ("<<<M1116>>>" ++ check (runes_of_ascii "packet BodyLength {f64 rootA , // 50% %s
+@calculatedFrom( ""\n""
+)@tag( 0 )
+    //	t
+    repeat char[ 7]repeatCount	, } root packet
+options1 {  }
+")).
+Eval vm_compute in ("<<<M2112>>>" ++ check (runes_of_ascii "MetaData BodyLength
+{ int8 Foo
+, string
+    MetaDataX , float zchar ,pack ,
+options1 asx string_, }
+packet u8x {Foo@lengthOf(charz )
+`" ++ [28040; 24687; 31867; 22411]%N ++ runes_of_ascii "`,  }
+")).
+Eval vm_compute in ("<<<M2092>>>" ++ check (runes_of_ascii "MetaData BodyLength
+{ int8 Foo
+, string
+    MetaDataX , zchar float ,pack options1
+,asx string_, }
+packet u8x {Foo@lengthOf(charz )
+`" ++ [28040; 24687; 31867; 22411]%N ++ runes_of_ascii "`,  }
+")).
+Eval vm_compute in ("<<<M2093>>>" ++ check (runes_of_ascii "MetaData BodyLength
+{ int8 Foo
+, string
+    MetaDataX , root zchar ,pack options1
+,asx string_, }
+packet u8x {Foo@lengthOf(charz )
+`" ++ [28040; 24687; 31867; 22411]%N ++ runes_of_ascii "`,  }
+")).
+Eval vm_compute in ("<<<M149>>>" ++ check (runes_of_ascii "options { options1
+    =
+    // packet A { u8 x, }
+    float64
+    leftPad =
+true ; MetaDataX
+=char[ 00 ] ;roots=false } packet string_{ }
+")).
+Eval vm_compute in ("<<<M2188>>>" ++ check (runes_of_ascii "MetaData BodyLength
+{ int8 Foo
+, string
+    MetaDataX , float zchar ,pack options1
+,asx string_, }
+packet u8x {Foo@lengthOf(charz )
+`" ++ [28040; 24687; 31867; 22411]%N ++ runes_of_ascii "`,")).
+Eval vm_compute in ("<<<M4056>>>" ++ check (runes_of_ascii "root packet T {
+    @leftPad('0')
+    repeat leftPad {
+        char[3] roots,
+    },
+}
+
+packet _x {
+    int32 int @calculatedFrom(""\n""),
+}")).
+Eval vm_compute in ("<<<M2319>>>" ++ check (runes_of_ascii "options
+    {
+x_y_z// " ++ [27880; 37322]%N ++ runes_of_ascii "
+= 10 ; }
+packet body {
+    @calculatedFrom(
+// trailing space 
+// " ++ [27880; 37322]%N ++ runes_of_ascii "
+""1""
+)	match T as Foo
+    {
+255 :T , } }
+,}")).
+Eval vm_compute in ("<<<M967>>>" ++ check (runes_of_ascii "
+options { // packet A { u8 x, }
+}options
+    {
+trueish
+=char[] ;
+uint8x
+    // packet A { u8 x, }
+    =i64 ; As = false; // 50% %s
+}")).
+Eval vm_compute in ("<<<M2225>>>" ++ check (runes_of_ascii "options
+    {
+x_y_z// " ++ [27880; 37322]%N ++ runes_of_ascii "
+10 = ; }
+packet body {
+    @calculatedFrom(
+// trailing space 
+// " ++ [27880; 37322]%N ++ runes_of_ascii "
+""1""
+)	match T as Foo
+    {
+255 :T , }
+,}")).
+Eval vm_compute in ("<<<M1946>>>" ++ check (runes_of_ascii "
+packet leftPad {
+@leftPad '0')
+u32
+i64_ `100% of %d` ,repeat// 50% %s
+i8 chars
+    ,
+} MetaData
+    f32a
+{ // packet A { u8 x, }
+}")).
+Eval vm_compute in ("<<<M524>>>" ++ check (runes_of_ascii "// packet A { u8 x, }
+packet roots{ repeat	body
+// `tick` ""quote"" 'q'
+// @lengthOf(
+, } MetaData asx {
+    char[7 ] zchar  `{ , }`,}
+")).
+Eval vm_compute in ("<<<M4312>>>" ++ check (runes_of_ascii "  MetaData
+
+    packetx
+{  char[]
+
+    x 
+	    // `tick` ""quote"" 'q'
+	//
+	, body
+	Z9_  //	t
+,
+    } 
+    // trailing space ")).
+Eval vm_compute in ("<<<M687>>>" ++ check (runes_of_ascii "// " ++ [128512]%N ++ runes_of_ascii " emoji
+MetaData packetx { matchKey len `say ""hi""` , } //	t
+options// trailing space 
+{	o = true //x
+;
+    }	options { }
+//x
+")).
+Eval vm_compute in ("<<<M169>>>" ++ check (runes_of_ascii "packet
+    // `tick` ""quote"" 'q'
+    asx {
+    zchar[
+007] Pad
+`100% of %d` //x
+,
+}
+root packet u128 { char[ 65535] crc , }")).
+Eval vm_compute in ("<<<M1099>>>" ++ check (runes_of_ascii "MetaData packetx { i64_
+    f32a ``,} options// packet A { u8 x, }
+{  u8x = """ ++ [233]%N ++ runes_of_ascii "t" ++ [233]%N ++ runes_of_ascii """ } options
+    { Foo =true x_y_z = 10
+}
+")).
+Eval vm_compute in ("<<<M1883>>>" ++ check (runes_of_ascii "packet o {
+    roots `it's`
+// trailing space 
+//x
+, char[ 42
+    ]  A, // " ++ [27880; 37322]%N ++ runes_of_ascii "
+f64 f64
+repeatCount
+    `crlf
+line`
+,}")).
+Eval vm_compute in ("<<<M1898>>>" ++ check (runes_of_ascii "packet o {
+    roots `it's`
+// trailing space 
+//x
+, char[ 42
+    ]  A, // " ++ [27880; 37322]%N ++ runes_of_ascii "
+f64
+repeatCount
+    `crlf
+line`
+, ,}")).
+Eval vm_compute in ("<<<M214>>>" ++ check (runes_of_ascii "packet rootA {
+    // a // b
+    } options {o
+= false ; asx
+=char[ 10 ] // `tick` ""quote"" 'q'
+}
+    options	{	}
+")).
+Eval vm_compute in ("<<<M1867>>>" ++ check (runes_of_ascii "packet o {
+    roots `it's`
+// trailing space 
+//x
+, char[ 42
+      A, // " ++ [27880; 37322]%N ++ runes_of_ascii "
+f64
+repeatCount
+    `crlf
+line`
+,}")).
+Eval vm_compute in ("<<<M1832>>>" ++ check (runes_of_ascii "i64 o {
+    roots `it's`
+// trailing space 
+//x
+, char[ 42
+    ]  A, // " ++ [27880; 37322]%N ++ runes_of_ascii "
+f64
+repeatCount
+    `crlf
+line`
+,}")).
+Eval vm_compute in ("<<<M4310>>>" ++ check (runes_of_ascii "
+packet 
+        //
+  // " ++ [128512]%N ++ runes_of_ascii " emoji
+  T
+
+{
+
+    char[] repeatCount @lengthOf( a1
+)
+	`u8 x,`	, /// triple
+  } ")).
+Eval vm_compute in ("<<<M1443>>>" ++ check (runes_of_ascii "packet
+T
+{ match repeatCount as	calculatedFrom calculatedFrom
+{ [65535 ]	: As	,
+} ,}
+// trailing space 
+")).
+Eval vm_compute in ("<<<M536>>>" ++ check (runes_of_ascii "MetaData repeatCount
+{ char[
+    // packet A { u8 x, }
+    4294967296 ] chars `// not a comment` , }
+")).
+Eval vm_compute in ("<<<M1480>>>" ++ check (runes_of_ascii "packet
+T
+{ match repeatCount as	calculatedFrom
+{ [65535 ]	: As	@lengthOf(
+} ,}
+// trailing space 
+")).
+Eval vm_compute in ("<<<M232>>>" ++ check (runes_of_ascii "packet A { repeat crc uint8x // @lengthOf(
+,
+@calculatedFrom( ""it's""
+) uint64 Logon `a\`,
+    }")).
+Eval vm_compute in ("<<<M190>>>" ++ check (runes_of_ascii "packet x {
+    }packet repeatCount {
+    charz charz , }
+    // 50% %s
+    packet trueish{ }
+")).
+Eval vm_compute in ("<<<M4158>>>" ++ check (runes_of_ascii "MetaData 
+Foo {
+zchar[ 0
+
+]matchKey
+,	} options
+	{	lengthOf
+	= i32 
+u
+	=
+    00
+	; }	// c
+")).
+Eval vm_compute in ("<<<M368>>>" ++ check (runes_of_ascii "//x
+packet /// triple
+falsey{Packet `tab	here` , // @lengthOf(
+}options {
+    } // " ++ [128512]%N ++ runes_of_ascii " emoji")).
+Eval vm_compute in ("<<<M1444>>>" ++ check (runes_of_ascii "packet
+T
+{ match repeatCount as	{
+calculatedFrom [65535 ]	: As	,
+} ,}
+// trailing space 
+")).
+Eval vm_compute in ("<<<M1460>>>" ++ check (runes_of_ascii "packet
+T
+{ match repeatCount as	calculatedFrom
+{ [root ]	: As	,
+} ,}
+// trailing space 
+")).
+Eval vm_compute in ("<<<M4408>>>" ++ check (runes_of_ascii "
+packet
+A{ match k
+	as n
+{
+
+[""a"",""bb""
+
+,
+
+""c c"", 
+""d"" ]
+
+    :	B 2
+
+    :  C
+} , }
+")).
+Eval vm_compute in ("<<<M1796>>>" ++ check (runes_of_ascii "options{  lengthOf =//x
+i16;
+    BodyLength = 0 ; pack
+= false;
+    A = char[ 3 3 ] }")).
+Eval vm_compute in ("<<<M3358>>>" ++ check (runes_of_ascii "options {
+    LittleEndian = true;
+}
+root packet P {
     repeat char cs,
     u8 x,
 }
 ")).
-Eval vm_compute in ("<<<M946>>>" ++ check (runes_of_ascii "MetaData M {
-    u8 x `x
-`,
-    T t `x
-`,
+Eval vm_compute in ("<<<M2961>>>" ++ check (runes_of_ascii "packet A {
+  match k as n {
+    [1, 22, 007, 4, 5, 66, 7, 8, 9] : B
+    2 : C
+  },
 }")).
-Eval vm_compute in ("<<<M1109>>>" ++ check (runes_of_ascii "root packet u128 { chars
+Eval vm_compute in ("<<<M1513>>>" ++ check (runes_of_ascii "packet
+T
+{ match repeatCount as	caf" ++ [233]%N ++ runes_of_ascii "_1
+{ [65535 ]	: As	,
+} ,}
+// trailing space 
+")).
+Eval vm_compute in ("<<<M2918>>>" ++ check (runes_of_ascii "packet A {
+  match k as n {
+    [""a"", ""bb"", 007, ""d"", ""e""] : B,
+    2 : C
+  },
+}")).
+Eval vm_compute in ("<<<M3250>>>" ++ check (runes_of_ascii "MetaData Foo {
 // c
-`it's` , }")).
-Eval vm_compute in ("<<<M1063>>>" ++ check (runes_of_ascii "options { a = 1 // c b = 2; // d}")).
-Eval vm_compute in ("<<<M1910>>>" ++ check (runes_of_ascii "packet A {
-    u8 x `d" ++ [8202]%N ++ runes_of_ascii "`,// c" ++ [8202]%N ++ runes_of_ascii "
+zchar[ 0 ] matchKey , } options { lengthOf = i32 u = 00 ; }")).
+Eval vm_compute in ("<<<M3404>>>" ++ check (runes_of_ascii "root packet
+	P{
+u8 
+s_u8
+    , repeat u8  r_u8
+    ,
+    u16	b_len
+,
+
+    }
+")).
+Eval vm_compute in ("<<<M2921>>>" ++ check (runes_of_ascii "packet A {
+  match k as n {
+    [1, 22, 007, 4, 5, 66] : B,
+    2 : C
+  },
 }")).
-Eval vm_compute in ("<<<M735>>>" ++ check (runes_of_ascii "f64 root f32 options true ' '")).
-Eval vm_compute in ("<<<M1075>>>" ++ check (runes_of_ascii "options { a = 1 // a
- ; }")).
-Eval vm_compute in ("<<<M1390>>>" ++ check (runes_of_ascii "MetaData o { }
+Eval vm_compute in ("<<<M2899>>>" ++ check (runes_of_ascii "packet A {
+  match k as n {
+    [1, ""bb"", 007, ""d""] : B,
+    2 : C
+  },
+}")).
+Eval vm_compute in ("<<<M2885>>>" ++ check (runes_of_ascii "packet A {
+  match k as n {
+    [""a"", ""bb"", ""c c""] : B
+    2 : C
+  },
+}")).
+Eval vm_compute in ("<<<M3395>>>" ++ check (runes_of_ascii "root packet P {
+    u16 a,
+    u32 Sum @calculatedFrom(""CR\
+C32""),
+}
+")).
+Eval vm_compute in ("<<<M616>>>" ++ check (runes_of_ascii "// @lengthOf(
+packet Packet {
+repeat body i64_ `it's`
+    ,
+    }")).
+Eval vm_compute in ("<<<M1150>>>" ++ check (runes_of_ascii "MetaData  calculatedFrom{ char[ 0123456789 ]T  `a\`// a // b
+,}
+")).
+Eval vm_compute in ("<<<M3581>>>" ++ check (runes_of_ascii "packet u8x {
+}
+
+MetaData crc {
+    char[4294967296] Foo,// c
+}")).
+Eval vm_compute in ("<<<M3306>>>" ++ check (runes_of_ascii "packet u8x { } MetaData crc { char[
+// c
+4294967296 ] Foo , }")).
+Eval vm_compute in ("<<<M2421>>>" ++ check (runes_of_ascii "MetaData
+    calculatedFrom
+{ zchar[  10 ]
+    As`tab	here`")).
+Eval vm_compute in ("<<<M1774>>>" ++ check (runes_of_ascii "options{  lengthOf =//x
+i16;
+    BodyLength = 0 ; pack
+=")).
+Eval vm_compute in ("<<<M462>>>" ++ check (runes_of_ascii "packet
+    BodyLength
+{  @rightPad( ) _x	, // c
+} 	 ")).
+Eval vm_compute in ("<<<M736>>>" ++ check (runes_of_ascii "root packet A{
+int64 Z9_``,} // `tick` ""quote"" 'q'")).
+Eval vm_compute in ("<<<M393>>>" ++ check (runes_of_ascii "packet
+    trueish // packet A { u8 x, }
+{  }
+
+")).
+Eval vm_compute in ("<<<M4294>>>" ++ check (runes_of_ascii "packet i8i8 {
+    repeat char int,
+    // " ++ [27880; 37322]%N ++ runes_of_ascii "
+}")).
+Eval vm_compute in ("<<<M206>>>" ++ check (runes_of_ascii "  MetaData
+    int { }
+options{	u8x = 10 }
+")).
+Eval vm_compute in ("<<<M41>>>" ++ check (runes_of_ascii "root
+packet uint8x {}root packet  Pad
+{}")).
+Eval vm_compute in ("<<<M3236>>>" ++ check (runes_of_ascii "root packet u128 { chars `doc` , }
 // c
 ")).
-Eval vm_compute in ("<<<M997>>>" ++ check (runes_of_ascii "// c" ++ [8192]%N ++ runes_of_ascii "
-packet A {
+Eval vm_compute in ("<<<M3839>>>" ++ check (runes_of_ascii "  options  { u8x
+= false
+} 
+      // c")).
+Eval vm_compute in ("<<<M2392>>>" ++ check (runes_of_ascii "MetaData
+Foo {Header //
+pack ,	` } 	 ")).
+Eval vm_compute in ("<<<M2778>>>" ++ check (runes_of_ascii "%<,F{FMU9l u3bO/F\<a%PB'oJM=v'RNO%|A")).
+Eval vm_compute in ("<<<M3208>>>" ++ check (runes_of_ascii "root // a
+ packet // b
+ A // c
+ { }")).
+Eval vm_compute in ("<<<M2608>>>" ++ check (runes_of_ascii "packet A { B { @tag(1) u8 x, }, }")).
+Eval vm_compute in ("<<<M3396>>>" ++ check (runes_of_ascii "root packet P {
+    string s,
+}
+")).
+Eval vm_compute in ("<<<M2074>>>" ++ check (runes_of_ascii "MetaData BodyLength
+{ int8 Foo")).
+Eval vm_compute in ("<<<M2453>>>" ++ check (runes_of_ascii "f32 f64 float32 float64 float")).
+Eval vm_compute in ("<<<M3344>>>" ++ check (runes_of_ascii "options { u8x // c
+= false }")).
+Eval vm_compute in ("<<<M430>>>" ++ check (runes_of_ascii "root packet rootA { } // c")).
+Eval vm_compute in ("<<<M2812>>>" ++ check (runes_of_ascii "^""/z
+" ++ [65533; 4; 65533; 8]%N ++ runes_of_ascii "w!67" ++ [65533; 65533; 65533; 65533; 65533; 65533; 23; 65533; 28; 65533]%N ++ runes_of_ascii "k3")).
+Eval vm_compute in ("<<<M2584>>>" ++ check (runes_of_ascii "packet A { x `d` `e`, }")).
+Eval vm_compute in ("<<<M408>>>" ++ check (runes_of_ascii "root
+packet	a1
+{ //
 }")).
-Eval vm_compute in ("<<<M984>>>" ++ check (runes_of_ascii "packet A {
-}// c" ++ [133]%N)).
-Eval vm_compute in ("<<<M1877>>>" ++ check (runes_of_ascii "packet A {
+Eval vm_compute in ("<<<M2675>>>" ++ check (runes_of_ascii "options { a = [1]; }")).
+Eval vm_compute in ("<<<M3594>>>" ++ check (runes_of_ascii "options {
+    //x
 }")).
-Eval vm_compute in ("<<<M990>>>" ++ check (runes_of_ascii "// c" ++ [5760]%N)).
-Eval vm_compute in ("<<<M736>>>" ++ check (runes_of_ascii "c")).
+Eval vm_compute in ("<<<M3132>>>" ++ check (runes_of_ascii "packet A {
+}
+// c" ++ [8233]%N)).
+Eval vm_compute in ("<<<M2640>>>" ++ check (runes_of_ascii "packet A { } root")).
+Eval vm_compute in ("<<<M885>>>" ++ check (runes_of_ascii "packet T
+{ } 	 ")).
+Eval vm_compute in ("<<<M663>>>" ++ check (runes_of_ascii "MetaData u {}
+")).
+Eval vm_compute in ("<<<M1333>>>" ++ check (runes_of_ascii "options {}
+
+")).
+Eval vm_compute in ("<<<M2752>>>" ++ check (runes_of_ascii "'0' : char")).
+Eval vm_compute in ("<<<M2433>>>" ++ check (runes_of_ascii "char[ ]")).
+Eval vm_compute in ("<<<M2522>>>" ++ check (runes_of_ascii """a\b""")).
+Eval vm_compute in ("<<<M2794>>>" ++ check (runes_of_ascii "q&XL ")).
+Eval vm_compute in ("<<<M2510>>>" ++ check (runes_of_ascii "//x")).
+Eval vm_compute in ("<<<M2525>>>" ++ check (runes_of_ascii """`""")).
+Eval vm_compute in ("<<<M2527>>>" ++ check (runes_of_ascii "``")).
+Eval vm_compute in ("<<<M15>>>" ++ check (@nil rune)).
